@@ -1,6 +1,6 @@
 (* C05 — proofs about the fragmentation / reassembly / NACK_FRAG model. *)
 From DustDDS Require Import Base.Machine Proto.FragModel.
-From Coq Require Import Lia ZArith List Bool Permutation.
+From Coq Require Import Lia ZArith List Bool Permutation Sorted.
 Import ListNotations.
 Open Scope Z_scope.
 
@@ -94,3 +94,1578 @@ Proof.
   apply firstn_all2.
   assert (H := div_ceil_bounds (blen p) f ltac:(unfold blen; lia) Hf). unfold blen in *. nia.
 Qed.
+
+(* ------------------------------------------------------------ equality, push *)
+
+Lemma bytes_eqb_eq : forall a b, bytes_eqb a b = true <-> a = b.
+Proof.
+  induction a as [|x a IH]; destruct b as [|y b]; cbn [bytes_eqb]; split; intros H; try congruence; try discriminate.
+  - apply andb_true_iff in H as [H1 H2]. apply Z.eqb_eq in H1. apply IH in H2. congruence.
+  - inversion H; subst. rewrite Z.eqb_refl. cbn. apply IH. reflexivity.
+Qed.
+
+Lemma frag_eqb_eq : forall a b, frag_eqb a b = true <-> a = b.
+Proof.
+  intros [r1 s1 st1 n1 fs1 d1 b1] [r2 s2 st2 n2 fs2 d2 b2]. unfold frag_eqb.
+  cbn [fr_rid fr_sn fr_start fr_nsub fr_fsize fr_dsize fr_data].
+  rewrite !andb_true_iff, !Z.eqb_eq, bytes_eqb_eq. split.
+  - intros [[[[[[? ?] ?] ?] ?] ?] ?]. congruence.
+  - intros H. inversion H. tauto.
+Qed.
+
+Lemma existsb_frag_eqb : forall fr buf, existsb (frag_eqb fr) buf = true <-> In fr buf.
+Proof.
+  intros fr buf. rewrite existsb_exists. split.
+  - intros [x [Hin Heq]]. apply frag_eqb_eq in Heq. subst. exact Hin.
+  - intros Hin. exists fr. split; [exact Hin|]. apply frag_eqb_eq. reflexivity.
+Qed.
+
+Lemma push_frag_in : forall buf fr x, In x (push_frag buf fr) <-> In x buf \/ x = fr.
+Proof.
+  intros buf fr x. unfold push_frag.
+  destruct (existsb (frag_eqb fr) buf) eqn:E.
+  - apply existsb_frag_eqb in E. split; [tauto|]. intros [H|H]; [exact H|subst; exact E].
+  - rewrite in_app_iff. cbn [In]. intuition.
+Qed.
+
+Lemma push_frag_nodup : forall buf fr, NoDup buf -> NoDup (push_frag buf fr).
+Proof.
+  intros buf fr H. unfold push_frag.
+  destruct (existsb (frag_eqb fr) buf) eqn:E; [exact H|].
+  assert (Hn : ~ In fr buf).
+  { intros Hin. apply existsb_frag_eqb in Hin. congruence. }
+  clear E. induction buf as [|a buf IH]; cbn [app].
+  - constructor; [intros []|constructor].
+  - inversion H; subst. constructor.
+    + rewrite in_app_iff. cbn [In]. intros [H1|[H1|[]]]; [tauto|]. subst. apply Hn. left. reflexivity.
+    + apply IH; [assumption|]. intros Hin. apply Hn. right. exact Hin.
+Qed.
+
+Lemma fold_push_in : forall l buf x,
+  In x (fold_left push_frag l buf) <-> In x buf \/ In x l.
+Proof.
+  induction l as [|a l IH]; intros buf x; cbn [fold_left In]; [tauto|].
+  rewrite IH, push_frag_in. intuition.
+Qed.
+
+Lemma fold_push_nodup : forall l buf, NoDup buf -> NoDup (fold_left push_frag l buf).
+Proof.
+  induction l as [|a l IH]; intros buf H; cbn [fold_left]; [exact H|].
+  apply IH. apply push_frag_nodup. exact H.
+Qed.
+
+(* ------------------------------------------------------------ genuine fragments *)
+
+Lemma wrap_u32_small : forall z, 0 <= z < two32 -> wrap_u32 z = z.
+Proof. intros z H. unfold wrap_u32. apply Z.mod_small. exact H. Qed.
+Lemma wrap_u16_small : forall z, 0 <= z < 65536 -> wrap_u16 z = z.
+Proof. intros z H. unfold wrap_u16. apply Z.mod_small. exact H. Qed.
+
+Definition frag_size_ok (f : Z) : Prop := 0 < f < 65536.
+Definition payload_ok (p : bytes) : Prop := blen p < two32.
+
+Lemma blen_nonneg : forall p, 0 <= blen p.
+Proof. intros p. unfold blen. lia. Qed.
+
+Lemma div_ceil_le : forall a b, 0 <= a -> 0 < b -> div_ceil a b <= a.
+Proof.
+  intros a b Ha Hb. destruct (div_ceil_bounds a b Ha Hb) as [H|[H1 H2]]; [|lia].
+  destruct (Z_le_gt_dec (div_ceil a b) a); [assumption|]. nia.
+Qed.
+
+Section Genuine.
+  Variables (f rid sn : Z) (p : bytes).
+  Hypothesis Hf : frag_size_ok f.
+  Hypothesis Hp : payload_ok p.
+
+  Let n := div_ceil (blen p) f.
+  Definition gfrag (i : Z) : frag := mk_data_frag rid sn p f i.
+
+  Lemma n_bounds : 0 <= n <= blen p /\ n < two32.
+  Proof.
+    unfold n. pose proof (blen_nonneg p). destruct Hf.
+    pose proof (div_ceil_nonneg (blen p) f ltac:(lia) ltac:(lia)).
+    pose proof (div_ceil_le (blen p) f ltac:(lia) ltac:(lia)).
+    unfold payload_ok in Hp. lia.
+  Qed.
+
+  Lemma gfrag_fields : forall i, 0 <= i < n ->
+    fr_rid (gfrag i) = rid /\ fr_sn (gfrag i) = sn /\ fr_start (gfrag i) = i + 1 /\
+    fr_nsub (gfrag i) = 1 /\ fr_fsize (gfrag i) = f /\ fr_dsize (gfrag i) = blen p /\
+    fr_data (gfrag i) = slice p (i * f) (Z.min ((i + 1) * f) (blen p)).
+  Proof.
+    intros i Hi. pose proof n_bounds. unfold gfrag, mk_data_frag.
+    cbn [fr_rid fr_sn fr_start fr_nsub fr_fsize fr_dsize fr_data].
+    rewrite wrap_u32_small by lia. rewrite wrap_u16_small by (destruct Hf; lia).
+    rewrite wrap_u32_small by (pose proof (blen_nonneg p); unfold payload_ok in Hp; lia).
+    repeat split; reflexivity.
+  Qed.
+
+  Lemma gfrag_expected : forall i, 0 <= i < n -> total_fragments_expected (gfrag i) = Ok n.
+  Proof.
+    intros i Hi. destruct (gfrag_fields i Hi) as (_ & _ & _ & _ & Hfs & Hds & _).
+    unfold total_fragments_expected. rewrite Hfs, Hds.
+    destruct (Z.eqb_spec f 0) as [E|E]; [destruct Hf; lia|]. reflexivity.
+  Qed.
+
+  Lemma gfrag_inj : forall i j, 0 <= i < n -> 0 <= j < n -> fr_start (gfrag i) = fr_start (gfrag j) -> i = j.
+  Proof.
+    intros i j Hi Hj H.
+    destruct (gfrag_fields i Hi) as (_ & _ & H1 & _). destruct (gfrag_fields j Hj) as (_ & _ & H2 & _). lia.
+  Qed.
+End Genuine.
+
+(* ------------------------------------------------------------ reconstruct on genuine buffers *)
+
+Definition genuine (f rid : Z) (ch : list (Z * bytes)) (fr : frag) : Prop :=
+  exists p i, lookup (fr_sn fr) ch = Some p /\ 0 <= i < div_ceil (blen p) f /\
+              fr = mk_data_frag rid (fr_sn fr) p f i.
+
+Definition history_ok (ch : list (Z * bytes)) : Prop :=
+  forall sn p, lookup sn ch = Some p -> payload_ok p.
+
+Lemma sum_nsub_acc : forall l a, fold_left (fun acc fr => acc + fr_nsub fr) l a =
+                                 a + fold_left (fun acc fr => acc + fr_nsub fr) l 0.
+Proof.
+  induction l as [|x l IH]; intros a; cbn [fold_left]; [lia|].
+  rewrite IH. rewrite (IH (0 + fr_nsub x)). lia.
+Qed.
+
+Lemma sum_nsub_ones : forall l, (forall x, In x l -> fr_nsub x = 1) -> sum_nsub l = Z.of_nat (length l).
+Proof.
+  unfold sum_nsub. induction l as [|x l IH]; intros H; [reflexivity|].
+  cbn [fold_left length]. rewrite sum_nsub_acc. rewrite IH by (intros; apply H; right; assumption).
+  rewrite (H x) by (left; reflexivity). lia.
+Qed.
+
+Lemma zrange_in : forall n lo k, In k (zrange lo n) <-> lo <= k < lo + Z.of_nat n.
+Proof.
+  induction n as [|n IH]; intros lo k; cbn [zrange In].
+  - lia.
+  - rewrite IH. lia.
+Qed.
+
+Lemma zrange_length : forall n lo, length (zrange lo n) = n.
+Proof. induction n as [|n IH]; intros lo; cbn [zrange length]; [reflexivity|]. rewrite IH. reflexivity. Qed.
+
+Lemma zrange_nodup : forall n lo, NoDup (zrange lo n).
+Proof.
+  induction n as [|n IH]; intros lo; cbn [zrange]; constructor.
+  - rewrite zrange_in. lia.
+  - apply IH.
+Qed.
+
+Lemma collect_concat : forall buf sn m from,
+  collect buf sn m from =
+  concat (map (fun k => match find (is_frag sn k) buf with Some fr => fr_data fr | None => [] end) (zrange from m)).
+Proof.
+  intros buf sn m. induction m as [|m IH]; intros from; cbn [collect zrange map concat]; [reflexivity|].
+  rewrite IH. reflexivity.
+Qed.
+
+Lemma zrange_shift : forall n lo, zrange (lo + 1) n = map (fun i => i + 1) (zrange lo n).
+Proof.
+  induction n as [|n IH]; intros lo; cbn [zrange map]; [reflexivity|]. rewrite IH. reflexivity.
+Qed.
+
+Lemma zseq_zrange : forall n, zseq n = zrange 0 (Z.to_nat n).
+Proof.
+  intros n. unfold zseq. generalize (Z.to_nat n) as m. intros m.
+  assert (H : forall k, map Z.of_nat (seq k m) = zrange (Z.of_nat k) m).
+  { induction m as [|m IH]; intros k; cbn [seq map zrange]; [reflexivity|].
+    rewrite IH. f_equal. f_equal. lia. }
+  apply (H 0%nat).
+Qed.
+
+Section Reconstruct.
+  Variables (f rid : Z) (ch : list (Z * bytes)).
+  Hypothesis Hf : frag_size_ok f.
+  Hypothesis Hch : history_ok ch.
+
+  Variable buf : list frag.
+  Hypothesis Hnd : NoDup buf.
+  Hypothesis Hgen : forall x, In x buf -> genuine f rid ch x.
+
+  Lemma no_history_no_frag : forall sn, lookup sn ch = None -> find (has_sn sn) buf = None.
+  Proof.
+    intros sn Hl. destruct (find (has_sn sn) buf) as [x|] eqn:E; [|reflexivity].
+    apply find_some in E as [Hin Hs]. unfold has_sn in Hs. apply Z.eqb_eq in Hs.
+    destruct (Hgen x Hin) as (p & i & Hlk & _). congruence.
+  Qed.
+
+  Variables (sn : Z) (p : bytes).
+  Hypothesis Hlk : lookup sn ch = Some p.
+  Let n := div_ceil (blen p) f.
+  Let G := filter (has_sn sn) buf.
+
+  Lemma G_elem : forall x, In x G -> exists i, 0 <= i < n /\ x = gfrag f rid sn p i.
+  Proof.
+    intros x Hx. unfold G in Hx. apply filter_In in Hx as [Hin Hs].
+    unfold has_sn in Hs. apply Z.eqb_eq in Hs.
+    destruct (Hgen x Hin) as (p' & i & Hl & Hi & Hx). rewrite Hs in *.
+    assert (p' = p) by congruence. subst p'. exists i. split; [exact Hi|exact Hx].
+  Qed.
+
+  Lemma buf_elem_start : forall x k, In x buf -> is_frag sn k x = true ->
+    1 <= k <= n /\ x = gfrag f rid sn p (k - 1).
+  Proof.
+    intros x k Hin Hk. unfold is_frag in Hk. apply andb_true_iff in Hk as [H1 H2].
+    apply Z.eqb_eq in H1, H2.
+    assert (HG : In x G). { unfold G. apply filter_In. split; [exact Hin|]. unfold has_sn. apply Z.eqb_eq. exact H1. }
+    destruct (G_elem x HG) as (i & Hi & Hx).
+    pose proof (gfrag_fields f rid sn p Hf (Hch _ _ Hlk) i Hi) as (_ & _ & Hst & _).
+    rewrite <- Hx in Hst. replace (k - 1) with i by lia. split; [lia|exact Hx].
+  Qed.
+
+  Lemma G_starts_nodup : NoDup (map fr_start G).
+  Proof.
+    assert (HndG : NoDup G) by (unfold G; apply NoDup_filter; exact Hnd).
+    assert (Hel := G_elem). clearbody G.
+    induction G as [|x l IH]; cbn [map]; constructor.
+    - intros Hin. apply in_map_iff in Hin as (y & Hy & Hyl).
+      inversion HndG; subst.
+      destruct (Hel x (or_introl eq_refl)) as (i & Hi & Hx).
+      destruct (Hel y (or_intror Hyl)) as (j & Hj & Hy').
+      assert (i = j).
+      { apply (gfrag_inj f rid sn p Hf (Hch _ _ Hlk)); [exact Hi|exact Hj|]. rewrite <- Hx, <- Hy'. symmetry. exact Hy. }
+      subst j. apply H1. rewrite Hx, <- Hy'. exact Hyl.
+    - inversion HndG; subst. apply IH; [assumption|]. intros y Hy. apply Hel. right. exact Hy.
+  Qed.
+
+  Lemma G_starts_incl : incl (map fr_start G) (zrange 1 (Z.to_nat n)).
+  Proof.
+    intros k Hk. apply in_map_iff in Hk as (x & Hx & Hin).
+    destruct (G_elem x Hin) as (i & Hi & Hxi).
+    pose proof (gfrag_fields f rid sn p Hf (Hch _ _ Hlk) i Hi) as (_ & _ & Hst & _).
+    rewrite <- Hxi in Hst. apply zrange_in. lia.
+  Qed.
+
+  Lemma G_total : sum_nsub G = Z.of_nat (length G).
+  Proof.
+    apply sum_nsub_ones. intros x Hx. destruct (G_elem x Hx) as (i & Hi & Hxi).
+    pose proof (gfrag_fields f rid sn p Hf (Hch _ _ Hlk) i Hi) as (_ & _ & _ & Hns & _).
+    rewrite Hxi. exact Hns.
+  Qed.
+
+  Lemma G_length_le : Z.of_nat (length G) <= n.
+  Proof.
+    pose proof (NoDup_incl_length G_starts_nodup G_starts_incl) as H.
+    rewrite map_length, zrange_length in H.
+    pose proof (n_bounds f p Hf (Hch _ _ Hlk)). fold n in H0. lia.
+  Qed.
+
+  Definition complete : Prop := forall i, 0 <= i < n -> In (gfrag f rid sn p i) buf.
+
+  Lemma complete_iff_length : complete <-> Z.of_nat (length G) = n.
+  Proof.
+    pose proof (n_bounds f p Hf (Hch _ _ Hlk)) as Hn. fold n in Hn.
+    split.
+    - intros Hc.
+      assert (Hincl : incl (zrange 1 (Z.to_nat n)) (map fr_start G)).
+      { intros k Hk. apply zrange_in in Hk. apply in_map_iff. exists (gfrag f rid sn p (k - 1)).
+        pose proof (gfrag_fields f rid sn p Hf (Hch _ _ Hlk) (k - 1) ltac:(fold n; lia)) as (_ & Hs & Hst & _).
+        split; [lia|]. unfold G. apply filter_In. split; [apply Hc; lia|].
+        unfold has_sn. rewrite Hs. apply Z.eqb_refl. }
+      pose proof (NoDup_incl_length (zrange_nodup (Z.to_nat n) 1) Hincl) as H.
+      rewrite map_length, zrange_length in H. pose proof G_length_le. lia.
+    - intros Hlen i Hi.
+      assert (Hincl : incl (zrange 1 (Z.to_nat n)) (map fr_start G)).
+      { apply NoDup_length_incl; [exact G_starts_nodup| |exact G_starts_incl].
+        rewrite map_length, zrange_length. lia. }
+      assert (Hk : In (i + 1) (map fr_start G)) by (apply Hincl; apply zrange_in; lia).
+      apply in_map_iff in Hk as (x & Hst & Hin).
+      destruct (G_elem x Hin) as (j & Hj & Hxj).
+      pose proof (gfrag_fields f rid sn p Hf (Hch _ _ Hlk) j Hj) as (_ & _ & Hst' & _).
+      rewrite <- Hxj in Hst'. assert (j = i) by lia. subst j.
+      rewrite <- Hxj. unfold G in Hin. apply filter_In in Hin. tauto.
+  Qed.
+
+  Lemma find_first_sn : forall x, find (has_sn sn) buf = Some x ->
+    total_fragments_expected x = Ok n /\ 1 <= n.
+  Proof.
+    intros x E. apply find_some in E as [Hin Hs].
+    assert (HG : In x G) by (unfold G; apply filter_In; tauto).
+    destruct (G_elem x HG) as (i & Hi & Hxi). rewrite Hxi. split; [|lia].
+    apply (gfrag_expected f rid sn p Hf (Hch _ _ Hlk)). exact Hi.
+  Qed.
+
+  Lemma find_start_complete : forall k, complete -> 1 <= k <= n ->
+    exists x, find (is_frag sn k) buf = Some x /\
+              fr_data x = slice p ((k - 1) * f) (Z.min (((k - 1) + 1) * f) (blen p)).
+  Proof.
+    intros k Hc Hk.
+    destruct (find (is_frag sn k) buf) as [x|] eqn:E.
+    - exists x. split; [reflexivity|]. apply find_some in E as [Hin Hp].
+      destruct (buf_elem_start x k Hin Hp) as [_ Hx].
+      pose proof (gfrag_fields f rid sn p Hf (Hch _ _ Hlk) (k - 1) ltac:(fold n; lia)) as (_ & _ & _ & _ & _ & _ & Hd).
+      rewrite Hx. exact Hd.
+    - exfalso. pose proof (find_none _ _ E (gfrag f rid sn p (k - 1)) (Hc (k - 1) ltac:(lia))) as Hnone.
+      pose proof (gfrag_fields f rid sn p Hf (Hch _ _ Hlk) (k - 1) ltac:(fold n; lia)) as (_ & Hs & Hst & _).
+      unfold is_frag in Hnone. rewrite Hs, Hst in Hnone.
+      rewrite Z.eqb_refl in Hnone. replace (k - 1 + 1 =? k) with true in Hnone by (symmetry; apply Z.eqb_eq; lia).
+      discriminate.
+  Qed.
+
+  Lemma find_start_zero : find (is_frag sn 0) buf = None.
+  Proof.
+    destruct (find (is_frag sn 0) buf) as [x|] eqn:E; [|reflexivity].
+    apply find_some in E as [Hin Hp]. destruct (buf_elem_start x 0 Hin Hp). lia.
+  Qed.
+
+  Lemma collect_complete : complete -> collect buf sn (Z.to_nat (n + 1)) 0 = p.
+  Proof.
+    intros Hc. pose proof (n_bounds f p Hf (Hch _ _ Hlk)) as Hn. fold n in Hn.
+    replace (Z.to_nat (n + 1)) with (S (Z.to_nat n)) by lia.
+    cbn [collect]. rewrite find_start_zero. cbn [app]. replace (0 + 1) with 1 by lia.
+    rewrite collect_concat.
+    etransitivity; [|apply (concat_frags p f); destruct Hf; lia]. fold n.
+    f_equal. rewrite zseq_zrange. replace 1 with (0 + 1) at 1 by lia. rewrite zrange_shift, map_map.
+    apply map_ext_in. intros i Hi. apply zrange_in in Hi.
+    destruct (find_start_complete (i + 1) Hc ltac:(lia)) as (x & Hfind & Hd).
+    rewrite Hfind, Hd. replace (i + 1 - 1) with i by lia. reflexivity.
+  Qed.
+
+  (* the heart of C05: on a buffer of genuine fragments, reconstruct returns the written payload
+     when every fragment is present, and nothing otherwise *)
+  Lemma reconstruct_complete : complete -> 1 <= n ->
+    reconstruct buf sn = Ok (Some p, filter (fun fr => negb (has_sn sn fr)) buf).
+  Proof.
+    intros Hc Hn1. unfold reconstruct.
+    destruct (find_start_complete 1 Hc ltac:(lia)) as (x1 & Hf1 & _).
+    destruct (find (has_sn sn) buf) as [x0|] eqn:E0.
+    2:{ exfalso. apply find_some in Hf1 as [Hin Hp]. pose proof (find_none _ _ E0 x1 Hin) as H.
+        unfold is_frag in Hp. unfold has_sn in H. apply andb_true_iff in Hp. destruct Hp. congruence. }
+    destruct (find_first_sn x0 E0) as [He _]. rewrite He. cbn [bind].
+    fold G. rewrite G_total. apply complete_iff_length in Hc as Hlen. rewrite Hlen.
+    pose proof (n_bounds f p Hf (Hch _ _ Hlk)) as Hn. fold n in Hn.
+    replace (u32_max <? n) with false by (symmetry; apply Z.ltb_ge; unfold u32_max, two32 in *; lia).
+    rewrite Z.eqb_refl. rewrite collect_complete by exact Hc. rewrite Hf1. reflexivity.
+  Qed.
+
+  Lemma reconstruct_incomplete : ~ complete -> reconstruct buf sn = Ok (None, buf).
+  Proof.
+    intros Hc. unfold reconstruct.
+    destruct (find (has_sn sn) buf) as [x0|] eqn:E0; [|reflexivity].
+    destruct (find_first_sn x0 E0) as [He _]. rewrite He. cbn [bind].
+    fold G. rewrite G_total.
+    pose proof (n_bounds f p Hf (Hch _ _ Hlk)) as Hn. fold n in Hn. pose proof G_length_le as Hle.
+    replace (u32_max <? Z.of_nat (length G)) with false
+      by (symmetry; apply Z.ltb_ge; unfold u32_max, two32 in *; lia).
+    destruct (Z.eqb_spec (Z.of_nat (length G)) n) as [E|E]; [|reflexivity].
+    exfalso. apply Hc. apply complete_iff_length. exact E.
+  Qed.
+
+  Lemma complete_dec : complete \/ ~ complete.
+  Proof.
+    destruct (Z.eq_dec (Z.of_nat (length G)) n) as [E|E].
+    - left. apply complete_iff_length. exact E.
+    - right. intros H. apply E. apply complete_iff_length. exact H.
+  Qed.
+
+  (* never a wrong payload *)
+  Lemma reconstruct_sound : forall d buf', reconstruct buf sn = Ok (Some d, buf') ->
+    d = p /\ complete /\ buf' = filter (fun fr => negb (has_sn sn fr)) buf.
+  Proof.
+    intros d buf' H. destruct complete_dec as [Hc|Hc].
+    - assert (1 <= n).
+      { unfold reconstruct in H. destruct (find (has_sn sn) buf) as [x0|] eqn:E0; [|discriminate].
+        apply (find_first_sn x0 E0). }
+      rewrite (reconstruct_complete Hc H0) in H. inversion H. tauto.
+    - rewrite (reconstruct_incomplete Hc) in H. discriminate.
+  Qed.
+End Reconstruct.
+
+(* ------------------------------------------------------------ proxy-level statements *)
+
+Section ProxyLevel.
+  Variables (f rid sn : Z) (p : bytes) (l : list frag).
+  Hypothesis Hf : frag_size_ok f.
+  Hypothesis Hp : payload_ok p.
+  (* every element of l that speaks for sn is one of the fragments of p; anything else carries another sn *)
+  Hypothesis Hl : forall x, In x l -> fr_sn x = sn ->
+                    exists i, 0 <= i < div_ceil (blen p) f /\ x = mk_data_frag rid sn p f i.
+
+  Let buf := fold_left push_frag l [].
+  Let others := filter (fun x => negb (has_sn sn x)) l.
+
+  (* reduce to the genuine-buffer lemmas by forgetting the other sequence numbers:
+     reconstruct only looks at fragments with fr_sn = sn *)
+  Let bufS := filter (has_sn sn) buf.
+
+  Lemma reconstruct_filter_sn : forall b,
+    reconstruct b sn =
+    match reconstruct (filter (has_sn sn) b) sn with
+    | Ok (Some d, _) => Ok (Some d, filter (fun x => negb (has_sn sn x)) b)
+    | Ok (None, _) => Ok (None, b)
+    | Err e => Err e
+    | Panic s => Panic s
+    end.
+  Proof.
+    intros b. unfold reconstruct.
+    assert (Hfind : forall q, (forall x, q x = true -> has_sn sn x = true) ->
+                     find q (filter (has_sn sn) b) = find q b).
+    { intros q Hq. clear - Hq. induction b as [|x b IH]; cbn [filter find]; [reflexivity|].
+      destruct (has_sn sn x) eqn:E; cbn [find].
+      - destruct (q x); [reflexivity|exact IH].
+      - destruct (q x) eqn:Eq; [apply Hq in Eq; congruence|exact IH]. }
+    rewrite (Hfind (has_sn sn)) by auto.
+    assert (Hff : filter (has_sn sn) (filter (has_sn sn) b) = filter (has_sn sn) b).
+    { clear. induction b as [|x b IH]; cbn [filter]; [reflexivity|].
+      destruct (has_sn sn x) eqn:E; cbn [filter]; [rewrite E, IH; reflexivity|exact IH]. }
+    rewrite Hff.
+    assert (Hcol : forall m from, collect (filter (has_sn sn) b) sn m from = collect b sn m from).
+    { intros m. induction m as [|m IH]; intros from; cbn [collect]; [reflexivity|].
+      rewrite IH. rewrite (Hfind (is_frag sn from)); [reflexivity|].
+      intros x Hx. unfold is_frag in Hx. apply andb_true_iff in Hx. unfold has_sn. tauto. }
+    rewrite (Hfind (is_frag sn 1)).
+    2:{ intros x Hx. unfold is_frag in Hx. apply andb_true_iff in Hx. unfold has_sn. tauto. }
+    destruct (find (has_sn sn) b) as [x0|]; [|reflexivity].
+    destruct (total_fragments_expected x0) as [e|e|e]; cbn [bind]; try reflexivity.
+    destruct (u32_max <? sum_nsub (filter (has_sn sn) b)); [reflexivity|].
+    destruct (sum_nsub (filter (has_sn sn) b) =? e); [|reflexivity].
+    rewrite Hcol. destruct (find (is_frag sn 1) b); reflexivity.
+  Qed.
+
+  Let ch : list (Z * bytes) := [(sn, p)].
+
+  Lemma bufS_nodup : NoDup bufS.
+  Proof. unfold bufS, buf. apply NoDup_filter. apply fold_push_nodup. constructor. Qed.
+
+  Lemma bufS_genuine : forall x, In x bufS -> genuine f rid ch x.
+  Proof.
+    intros x Hx. unfold bufS in Hx. apply filter_In in Hx as [Hin Hs].
+    unfold buf in Hin. apply fold_push_in in Hin as [[]|Hin].
+    unfold has_sn in Hs. apply Z.eqb_eq in Hs.
+    destruct (Hl x Hin Hs) as (i & Hi & Hxi). exists p, i. rewrite Hs. unfold ch. cbn [lookup].
+    rewrite Z.eqb_refl. auto.
+  Qed.
+
+  Lemma ch_ok : history_ok ch.
+  Proof.
+    intros s q H. unfold ch in H. cbn [lookup] in H. destruct (sn =? s); [|discriminate]. inversion H; subst. exact Hp.
+  Qed.
+
+  Lemma ch_lookup : lookup sn ch = Some p.
+  Proof. unfold ch. cbn [lookup]. rewrite Z.eqb_refl. reflexivity. Qed.
+
+  Lemma complete_bufS_iff :
+    complete f rid bufS sn p <-> (forall i, 0 <= i < div_ceil (blen p) f -> In (mk_data_frag rid sn p f i) l).
+  Proof.
+    unfold complete, gfrag. split; intros H i Hi.
+    - specialize (H i Hi). unfold bufS in H. apply filter_In in H as [H _]. unfold buf in H.
+      apply fold_push_in in H as [[]|H]. exact H.
+    - unfold bufS. apply filter_In. split.
+      + unfold buf. apply fold_push_in. right. apply H. exact Hi.
+      + pose proof (gfrag_fields f rid sn p Hf Hp i Hi) as (_ & Hs & _). unfold gfrag in Hs.
+        unfold has_sn. rewrite Hs. apply Z.eqb_refl.
+  Qed.
+
+  (* any order, any duplication, any interleaving with other samples' fragments *)
+  Lemma reassemble_any_order :
+    1 <= div_ceil (blen p) f ->
+    (forall i, 0 <= i < div_ceil (blen p) f -> In (mk_data_frag rid sn p f i) l) ->
+    reconstruct buf sn = Ok (Some p, filter (fun x => negb (has_sn sn x)) buf).
+  Proof.
+    intros Hn Hall. rewrite reconstruct_filter_sn. fold bufS.
+    rewrite (reconstruct_complete f rid ch Hf ch_ok bufS bufS_nodup bufS_genuine sn p ch_lookup).
+    - reflexivity.
+    - apply complete_bufS_iff. exact Hall.
+    - exact Hn.
+  Qed.
+
+  Lemma reassemble_incomplete :
+    ~ (forall i, 0 <= i < div_ceil (blen p) f -> In (mk_data_frag rid sn p f i) l) ->
+    reconstruct buf sn = Ok (None, buf).
+  Proof.
+    intros Hall. rewrite reconstruct_filter_sn. fold bufS.
+    rewrite (reconstruct_incomplete f rid ch Hf ch_ok bufS bufS_nodup bufS_genuine sn p ch_lookup).
+    - reflexivity.
+    - intros Hc. apply Hall. apply complete_bufS_iff. exact Hc.
+  Qed.
+
+  Lemma reassemble_never_wrong : forall d b',
+    reconstruct buf sn = Ok (Some d, b') -> d = p.
+  Proof.
+    intros d b' H. rewrite reconstruct_filter_sn in H. fold bufS in H.
+    destruct (reconstruct bufS sn) as [[[d'|] b'']|e|e] eqn:E; try discriminate.
+    inversion H; subst d'.
+    apply (reconstruct_sound f rid ch Hf ch_ok bufS bufS_nodup bufS_genuine sn p ch_lookup) in E. tauto.
+  Qed.
+
+  Lemma reassemble_no_panic : exists x, reconstruct buf sn = Ok x.
+  Proof.
+    destruct (complete_dec f rid ch Hf ch_ok bufS bufS_nodup bufS_genuine sn p ch_lookup) as [Hc|Hc].
+    - destruct (Z_le_gt_dec 1 (div_ceil (blen p) f)) as [Hn|Hn].
+      + eexists. apply reassemble_any_order; [exact Hn|]. apply complete_bufS_iff. exact Hc.
+      + eexists. rewrite reconstruct_filter_sn. fold bufS.
+        unfold reconstruct at 1.
+        destruct (find (has_sn sn) bufS) as [x0|] eqn:E0; [|reflexivity].
+        exfalso. destruct (find_first_sn f rid ch Hf ch_ok bufS bufS_genuine sn p ch_lookup x0 E0). lia.
+    - eexists. apply reassemble_incomplete. intros H. apply Hc. apply complete_bufS_iff. exact H.
+  Qed.
+End ProxyLevel.
+
+(* ------------------------------------------------------------ all histories *)
+
+Lemma lookup_app : forall sn a b,
+  lookup sn (a ++ b) = match lookup sn a with Some p => Some p | None => lookup sn b end.
+Proof.
+  intros sn a b. induction a as [|[s q] a IH]; cbn [app lookup]; [reflexivity|].
+  destruct (s =? sn); [reflexivity|exact IH].
+Qed.
+
+Lemma genuine_mono : forall f rid ch e x, genuine f rid ch x -> genuine f rid (ch ++ e) x.
+Proof.
+  intros f rid ch e x (p & i & Hl & Hi & Hx). exists p, i. rewrite lookup_app, Hl. auto.
+Qed.
+
+Lemma history_ok_app : forall ch sn p, history_ok ch -> payload_ok p -> history_ok (ch ++ [(sn, p)]).
+Proof.
+  intros ch sn p H Hp s q Hl. rewrite lookup_app in Hl.
+  destruct (lookup s ch) eqn:E.
+  - inversion Hl; subst. apply (H s q E).
+  - cbn [lookup] in Hl. destruct (sn =? s); [|discriminate]. inversion Hl; subst. exact Hp.
+Qed.
+
+Lemma sorted_app_one : forall l x, StronglySorted Z.lt l -> Forall (fun y => y < x) l ->
+  StronglySorted Z.lt (l ++ [x]).
+Proof.
+  induction l as [|a l IH]; intros x Hs Hall; cbn [app].
+  - constructor; constructor.
+  - inversion Hs; subst. inversion Hall; subst. constructor.
+    + apply IH; assumption.
+    + apply Forall_app. split; [assumption|]. constructor; [assumption|constructor].
+Qed.
+
+(* what the reader holds, relative to the writer's history ch *)
+Record rinv (f : Z) (ch : list (Z * bytes)) (r : rstate) : Prop := mkrinv {
+  ri_nodup : NoDup (r_buf r);
+  ri_genuine : forall x, In x (r_buf r) -> genuine f 1 ch x;
+  ri_changes : Forall (fun c => lookup (fst c) ch = Some (snd c) /\ fst c <= r_highest r) (r_changes r);
+  ri_sorted : StronglySorted Z.lt (map fst (r_changes r))
+}.
+
+Lemma rinv_mono : forall f ch e r, rinv f ch r -> rinv f (ch ++ e) r.
+Proof.
+  intros f ch e r [H1 H2 H3 H4]. constructor; try assumption.
+  - intros x Hx. apply genuine_mono. apply H2. exact Hx.
+  - eapply Forall_impl; [|exact H3]. intros c [Ha Hb]. rewrite lookup_app, Ha. auto.
+Qed.
+
+Lemma r_on_data_inv : forall f ch r sn p, rinv f ch r -> lookup sn ch = Some p -> rinv f ch (r_on_data r sn p).
+Proof.
+  intros f ch r sn p [H1 H2 H3 H4] Hl.
+  assert (Hbuf : forall s, NoDup (filter (fun fr => s <? fr_sn fr) (r_buf r)) /\
+                 forall x, In x (filter (fun fr => s <? fr_sn fr) (r_buf r)) -> genuine f 1 ch x).
+  { intros s. split; [apply NoDup_filter; exact H1|]. intros x Hx. apply filter_In in Hx. apply H2. tauto. }
+  assert (Hnew : available_changes_max r + 1 <= sn ->
+     Forall (fun c => lookup (fst c) ch = Some (snd c) /\ fst c <= Z.max (r_highest r) sn) (r_changes r ++ [(sn, p)]) /\
+     StronglySorted Z.lt (map fst (r_changes r ++ [(sn, p)]))).
+  { intros Hsn. unfold available_changes_max in Hsn. split.
+    - apply Forall_app. split.
+      + eapply Forall_impl; [|exact H3]. intros c [Ha Hb]. split; [exact Ha|lia].
+      + constructor; [|constructor]. cbn [fst snd]. split; [exact Hl|lia].
+    - rewrite map_app. cbn [map fst]. apply sorted_app_one; [exact H4|].
+      apply Forall_forall. intros y Hy. apply in_map_iff in Hy as (c & Hc & Hin).
+      rewrite Forall_forall in H3. destruct (H3 c Hin) as [_ Hb]. lia. }
+  unfold r_on_data.
+  destruct (r_rel r).
+  - destruct (Z.eqb_spec sn (available_changes_max r + 1)) as [E|E]; [|constructor; assumption].
+    destruct (Hnew ltac:(lia)) as [Ha Hb]. destruct (Hbuf sn) as [Hc Hd].
+    constructor; cbn [r_set received_change_set r_buf r_changes r_highest r_first]; assumption.
+  - destruct (Z.leb_spec (available_changes_max r + 1) sn) as [E|E]; [|constructor; assumption].
+    destruct (Hnew ltac:(lia)) as [Ha Hb]. destruct (Hbuf sn) as [Hc Hd].
+    constructor; cbn [r_set received_change_set r_buf r_changes r_highest r_first]; assumption.
+Qed.
+
+Lemma r_on_frag_inv : forall f ch r fr, frag_size_ok f -> history_ok ch ->
+  rinv f ch r -> genuine f 1 ch fr ->
+  exists r', r_on_frag r fr = Ok r' /\ rinv f ch r'.
+Proof.
+  intros f ch r fr Hf Hch [H1 H2 H3 H4] Hg.
+  unfold r_on_frag.
+  set (buf1 := if (if r_rel r then fr_sn fr =? available_changes_max r + 1
+                   else available_changes_max r + 1 <=? fr_sn fr)
+               then push_frag (r_buf r) fr else r_buf r).
+  assert (Hnd : NoDup buf1).
+  { unfold buf1. destruct (if r_rel r then _ else _); [apply push_frag_nodup|]; exact H1. }
+  assert (Hgen : forall x, In x buf1 -> genuine f 1 ch x).
+  { unfold buf1. destruct (if r_rel r then _ else _); [|exact H2].
+    intros x Hx. apply push_frag_in in Hx as [Hx|Hx]; [apply H2; exact Hx|subst; exact Hg]. }
+  destruct Hg as (p & i & Hl & Hi & Hfr).
+  destruct (complete_dec f 1 ch Hf Hch buf1 Hnd Hgen (fr_sn fr) p Hl) as [Hc|Hc].
+  - assert (Hn : 1 <= div_ceil (blen p) f) by lia.
+    rewrite (reconstruct_complete f 1 ch Hf Hch buf1 Hnd Hgen (fr_sn fr) p Hl Hc Hn).
+    cbn [bind fst snd]. eexists. split; [reflexivity|].
+    apply r_on_data_inv; [|exact Hl].
+    constructor; cbn [r_set r_buf r_changes r_highest]; try assumption.
+    + apply NoDup_filter. exact Hnd.
+    + intros x Hx. apply filter_In in Hx. apply Hgen. tauto.
+  - rewrite (reconstruct_incomplete f 1 ch Hf Hch buf1 Hnd Hgen (fr_sn fr) p Hl Hc).
+    cbn [bind fst snd]. eexists. split; [reflexivity|].
+    constructor; cbn [r_set r_buf r_changes r_highest]; assumption.
+Qed.
+
+(* genuine data-carrying submessages of the writer towards reader 1 *)
+Definition wire_genuine (f : Z) (ch : list (Z * bytes)) (w : wire) : Prop :=
+  match w with
+  | WData _ sn p => lookup sn ch = Some p
+  | WFrag fr => genuine f 1 ch fr
+  | WGap _ => True
+  end.
+
+Lemma r_deliver_inv : forall f ch r w, frag_size_ok f -> history_ok ch ->
+  rinv f ch r -> wire_genuine f ch w -> exists r', r_deliver r w = Ok r' /\ rinv f ch r'.
+Proof.
+  intros f ch r w Hf Hch Hr Hw. destruct w as [rid sn p|fr|sn]; cbn [r_deliver wire_genuine] in *.
+  - eexists. split; [reflexivity|]. apply r_on_data_inv; assumption.
+  - apply r_on_frag_inv; assumption.
+  - eexists. split; [reflexivity|exact Hr].
+Qed.
+
+Lemma r_deliver_all_inv : forall f ch ws r, frag_size_ok f -> history_ok ch ->
+  rinv f ch r -> Forall (wire_genuine f ch) ws -> exists r', r_deliver_all r ws = Ok r' /\ rinv f ch r'.
+Proof.
+  intros f ch ws. induction ws as [|w ws IH]; intros r Hf Hch Hr Hws; cbn [r_deliver_all].
+  - eexists. split; [reflexivity|exact Hr].
+  - inversion Hws; subst. destruct (r_deliver_inv f ch r w Hf Hch Hr H1) as (r1 & E & Hr1).
+    rewrite E. cbn [bind]. apply IH; assumption.
+Qed.
+
+(* ------------------------------------------------------------ the whole system *)
+
+Definition reply_ok (x : option (acknack * option nackfrag)) : Prop :=
+  match x with
+  | Some (_, Some nf) => 0 <= n_base nf /\ Forall (fun k => 0 <= k) (n_set nf)
+  | _ => True
+  end.
+
+Record sinv (s : sys) : Prop := mksinv {
+  si_f : frag_size_ok (w_f (s_w s));
+  si_hist : history_ok (w_changes (s_w s));
+  si_r : rinv (w_f (s_w s)) (w_changes (s_w s)) (s_r s);
+  si_reply : reply_ok (s_reply s)
+}.
+
+Lemma mk_data_frag_sn : forall rid sn p f i, fr_sn (mk_data_frag rid sn p f i) = sn.
+Proof. reflexivity. Qed.
+
+Lemma genuine_mk : forall f ch sn p k, lookup sn ch = Some p -> 0 <= k < div_ceil (blen p) f ->
+  genuine f 1 ch (mk_data_frag 1 sn p f k).
+Proof. intros f ch sn p k Hl Hk. exists p, k. rewrite mk_data_frag_sn. auto. Qed.
+
+Lemma w_on_nack_frag_spec : forall w count sn base set w' ws,
+  w_on_nack_frag w count sn base set = Ok (w', ws) ->
+  w_f w' = w_f w /\ w_changes w' = w_changes w /\
+  (0 <= base -> Forall (fun k => 0 <= k) set -> Forall (wire_genuine (w_f w) (w_changes w)) ws).
+Proof.
+  intros w count sn base set w' ws H. unfold w_on_nack_frag in H.
+  remember (base :: set) as L eqn:EL.
+  destruct (w_rel w && (w_last_nf w <? count)).
+  2:{ inversion H; subst. repeat split; constructor. }
+  destruct (lookup sn (w_changes w)) as [p|] eqn:El.
+  - destruct (w_f w =? 0); [discriminate|]. injection H as Hw Hws. subst w' ws. repeat split.
+    intros Hb Hs. apply Forall_forall. intros x Hx. apply in_map_iff in Hx as (k & Hk & Hin).
+    apply filter_In in Hin as [Hin Hlt]. apply Z.ltb_lt in Hlt. subst x. cbn [wire_genuine].
+    apply genuine_mk; [exact El|]. split; [|exact Hlt].
+    subst L. destruct Hin as [<-|Hin]; [exact Hb|]. rewrite Forall_forall in Hs. apply Hs. exact Hin.
+  - inversion H; subst. repeat split. intros _ _. constructor; [exact I|constructor].
+Qed.
+
+Lemma ack_resp_spec : forall w set ws, frag_size_ok (w_f w) -> ack_resp w set = Ok ws ->
+  Forall (wire_genuine (w_f w) (w_changes w)) ws.
+Proof.
+  intros w set. induction set as [|sn t IH]; intros ws Hf H; cbn [ack_resp] in H.
+  - inversion H. constructor.
+  - destruct (ack_resp w t) as [y|e|e] eqn:E.
+    2,3: destruct (lookup sn (w_changes w)); [destruct (0 <? sn); [destruct (w_f w =? 0)|]|]; discriminate.
+    assert (Hx : exists x, ws = x :: y /\ wire_genuine (w_f w) (w_changes w) x).
+    { destruct (lookup sn (w_changes w)) as [p|] eqn:El.
+      - destruct (0 <? sn).
+        + destruct (w_f w =? 0); [discriminate|]. cbn [bind] in H. inversion H; subst.
+          eexists. split; [reflexivity|].
+          destruct (Z.ltb_spec 1 (div_ceil (blen p) (w_f w))); cbn [wire_genuine]; [|exact El].
+          apply genuine_mk; [exact El|lia].
+        + cbn [bind] in H. inversion H; subst. eexists. split; [reflexivity|exact I].
+      - cbn [bind] in H. inversion H; subst. eexists. split; [reflexivity|exact I]. }
+    destruct Hx as (x & -> & Hx). constructor; [exact Hx|]. apply IH; [exact Hf|reflexivity].
+Qed.
+
+Lemma w_on_acknack_spec : forall w count base set w' ws, frag_size_ok (w_f w) ->
+  w_on_acknack w count base set = Ok (w', ws) ->
+  w_f w' = w_f w /\ w_changes w' = w_changes w /\ Forall (wire_genuine (w_f w) (w_changes w)) ws.
+Proof.
+  intros w count base set w' ws Hf H. unfold w_on_acknack in H.
+  destruct (w_rel w && (w_last_an w <? count)).
+  2:{ inversion H; subst. repeat split; constructor. }
+  destruct (ack_resp w set) as [y|e|e] eqn:E; try discriminate. cbn [bind] in H. inversion H; subst.
+  repeat split. apply (ack_resp_spec w set); assumption.
+Qed.
+
+Lemma datagram_of_spec : forall w sn idx x, datagram_of w sn idx 1 = Some x ->
+  wire_genuine (w_f w) (w_changes w) x.
+Proof.
+  intros w sn idx x H. unfold datagram_of in H.
+  destruct ((1 <=? 1) && (1 <=? w_nreaders w)); [|discriminate].
+  destruct (lookup sn (w_changes w)) as [p|] eqn:El; [|discriminate].
+  destruct (w_f w =? 0); [discriminate|].
+  destruct (1 <? div_ceil (blen p) (w_f w)).
+  - destruct (Z.leb_spec 0 idx); destruct (Z.ltb_spec idx (div_ceil (blen p) (w_f w))); cbn [andb] in H; try discriminate.
+    inversion H; subst. cbn [wire_genuine]. apply genuine_mk; [exact El|lia].
+  - destruct (idx =? 0); [|discriminate]. inversion H; subst. exact El.
+Qed.
+
+Lemma gen_nackfrag_reply_ok : forall r nf, gen_nackfrag r = Ok (Some nf) ->
+  0 <= n_base nf /\ Forall (fun k => 0 <= k) (n_set nf) /\ n_count nf = r_nfcount r.
+Proof.
+  intros r nf H. unfold gen_nackfrag in H.
+  destruct (find _ (missing256 r)) as [s|]; [|discriminate].
+  destruct (find (has_sn s) (r_buf r)) as [fr|]; [|discriminate].
+  destruct (fr_fsize fr =? 0); [discriminate|].
+  set (miss := filter _ _) in H.
+  assert (Hm : Forall (fun k => 1 <= k) miss).
+  { apply Forall_forall. intros k Hk. unfold miss in Hk. apply filter_In in Hk as [Hk _].
+    apply zrange_in in Hk. lia. }
+  destruct miss as [|b t] eqn:Em; [discriminate|].
+  destruct (existsb _ (b :: t)); [discriminate|]. inversion H; subst. cbn [n_base n_set n_count].
+  split; [inversion Hm; subst; lia|]. split; [|reflexivity].
+  eapply Forall_impl; [|exact Hm]. intros a Ha. cbn beta in Ha. lia.
+Qed.
+
+Lemma r_on_heartbeat_spec : forall r first last count final r' x,
+  r_on_heartbeat r first last count final = Ok (r', x) ->
+  r_buf r' = r_buf r /\ r_changes r' = r_changes r /\ r_highest r' = r_highest r /\
+  r_nfcount r' = r_nfcount r /\ r_rel r' = r_rel r /\
+  (forall a nf, x = Some (a, Some nf) ->
+     0 <= n_base nf /\ Forall (fun k => 0 <= k) (n_set nf) /\ n_count nf = r_nfcount r).
+Proof.
+  intros r first last count final r' x H. unfold r_on_heartbeat in H.
+  destruct (r_hbcount r <? count).
+  2:{ inversion H; subst. repeat split; intros; congruence. }
+  unfold r_write_message in H. cbn [r_must] in H.
+  destruct (negb final || _).
+  2:{ inversion H; subst. repeat split; intros; congruence. }
+  match type of H with context [gen_nackfrag ?R] => destruct (gen_nackfrag R) as [nfo|e|e] eqn:E end; try discriminate.
+  cbn [bind] in H. inversion H; subst. cbn [r_buf r_changes r_highest r_nfcount r_rel].
+  split; [reflexivity|]. split; [reflexivity|]. split; [reflexivity|]. split; [reflexivity|]. split; [reflexivity|].
+  intros a0 nf Hx. inversion Hx; subst. apply gen_nackfrag_reply_ok in E. cbn [r_nfcount] in E. exact E.
+Qed.
+
+Lemma respond_inv : forall s x s' o,
+  sinv s ->
+  (forall w' ws, x = Ok (w', ws) -> w_f w' = w_f (s_w s) /\ w_changes w' = w_changes (s_w s) /\
+                                   Forall (wire_genuine (w_f (s_w s)) (w_changes (s_w s))) ws) ->
+  respond s x = Ok (s', o) -> sinv s' /\ w_changes (s_w s') = w_changes (s_w s).
+Proof.
+  intros s x s' o [Hf Hh Hr Hp] Hx H. unfold respond in H.
+  destruct x as [[w' ws]|e|e]; try discriminate. cbn [bind fst snd] in H.
+  destruct (Hx w' ws eq_refl) as (E1 & E2 & Hg).
+  destruct (r_deliver_all_inv _ _ ws (s_r s) Hf Hh Hr Hg) as (r1 & E & Hr1).
+  rewrite E in H. cbn [bind] in H. inversion H; subst. cbn [s_w s_r s_reply].
+  split; [|exact E2]. constructor; cbn [s_w s_r s_reply]; rewrite ?E1, ?E2; assumption.
+Qed.
+
+Lemma step_inv : forall s o s' b, sinv s -> op_ok o -> step s o = Ok (s', b) ->
+  sinv s' /\ w_changes (s_w s') = w_changes (s_w s) ++
+             (match o with OWrite p => [(next_sn (s_w s), p)] | _ => [] end).
+Proof.
+  intros s o s' b Hs Hop H. pose proof Hs as [Hf Hh Hr Hp].
+  destruct o as [p|sn idx which| fr |first last count final| |count sn base set| ]; cbn [step op_ok] in *.
+  - (* write *)
+    unfold w_write in H.
+    destruct (send_change 1 _ _ p) as [a|e|e]; try discriminate. cbn [bind] in H.
+    destruct (if 2 <=? _ then _ else _) as [c|e|e]; try discriminate. cbn [bind fst snd] in H.
+    inversion H; subst. cbn [s_w s_r s_reply set_changes w_f w_changes]. split; [|reflexivity].
+    constructor; cbn [s_w s_r s_reply set_changes w_f w_changes]; try assumption.
+    + apply history_ok_app; assumption.
+    + apply rinv_mono. exact Hr.
+  - (* deliver *)
+    subst which. rewrite app_nil_r.
+    destruct (datagram_of (s_w s) sn idx 1) as [w|] eqn:E.
+    + apply datagram_of_spec in E.
+      destruct (r_deliver_inv _ _ (s_r s) w Hf Hh Hr E) as (r1 & E1 & Hr1). rewrite E1 in H.
+      cbn [bind] in H. inversion H; subst. split; [|reflexivity]. constructor; assumption.
+    + inversion H; subst. split; [exact Hs|reflexivity].
+  - destruct Hop.
+  - (* heartbeat *)
+    rewrite app_nil_r.
+    destruct (r_on_heartbeat (s_r s) first last count final) as [[r' x]|e|e] eqn:E; try discriminate.
+    cbn [bind fst snd] in H. inversion H; subst. cbn [s_w s_r s_reply].
+    destruct (r_on_heartbeat_spec _ _ _ _ _ _ _ E) as (E1 & E2 & E3 & _ & _ & Hnf).
+    split; [|reflexivity]. constructor; cbn [s_w s_r s_reply]; try assumption.
+    + destruct Hr as [R1 R2 R3 R4]. constructor; rewrite ?E1, ?E2, ?E3; assumption.
+    + destruct x as [[a [nf|]]|]; cbn [reply_ok]; try exact I; [|exact Hp].
+      destruct (Hnf a nf eq_refl) as (? & ? & _). auto.
+  - (* the reader's NACK_FRAG to the writer *)
+    rewrite app_nil_r.
+    destruct (s_reply s) as [[a [nf|]]|] eqn:Er.
+    + eapply respond_inv; [exact Hs| |exact H]. intros w' ws Hx.
+      destruct (w_on_nack_frag_spec _ _ _ _ _ _ _ Hx) as (E1 & E2 & Hg). cbn [reply_ok] in Hp.
+      repeat split; try assumption. apply Hg; tauto.
+    + eapply respond_inv; [exact Hs| |exact H]. intros w' ws Hx. inversion Hx; subst. repeat split; constructor.
+    + eapply respond_inv; [exact Hs| |exact H]. intros w' ws Hx. inversion Hx; subst. repeat split; constructor.
+  - (* forged NACK_FRAG *)
+    rewrite app_nil_r. eapply respond_inv; [exact Hs| |exact H]. intros w' ws Hx.
+    destruct (w_on_nack_frag_spec _ _ _ _ _ _ _ Hx) as (E1 & E2 & Hg).
+    repeat split; try assumption. apply Hg; tauto.
+  - (* ACKNACK *)
+    rewrite app_nil_r.
+    destruct (s_reply s) as [[a nfo]|] eqn:Er.
+    + eapply respond_inv; [exact Hs| |exact H]. intros w' ws Hx.
+      apply w_on_acknack_spec in Hx; assumption.
+    + eapply respond_inv; [exact Hs| |exact H]. intros w' ws Hx. inversion Hx; subst. repeat split; constructor.
+Qed.
+
+Fixpoint number_from (k : Z) (l : list bytes) : list (Z * bytes) :=
+  match l with [] => [] | p :: t => (k, p) :: number_from (k + 1) t end.
+
+Lemma number_from_length : forall l k, length (number_from k l) = length l.
+Proof. induction l as [|p l IH]; intros k; cbn [number_from length]; [reflexivity|]. rewrite IH. reflexivity. Qed.
+
+Lemma lookup_number_from : forall l k sn,
+  lookup sn (number_from k l) = if k <=? sn then nth_error l (Z.to_nat (sn - k)) else None.
+Proof.
+  induction l as [|p l IH]; intros k sn; cbn [number_from lookup].
+  - destruct (k <=? sn); [|reflexivity]. destruct (Z.to_nat (sn - k)); reflexivity.
+  - destruct (Z.eqb_spec k sn) as [E|E].
+    + subst. rewrite Z.leb_refl, Z.sub_diag. reflexivity.
+    + rewrite IH. destruct (Z.leb_spec (k + 1) sn); destruct (Z.leb_spec k sn); try lia; [|reflexivity].
+      replace (Z.to_nat (sn - k)) with (S (Z.to_nat (sn - (k + 1)))) by lia. reflexivity.
+Qed.
+
+Lemma run_inv : forall ops s s' obs, sinv s -> Forall op_ok ops -> run s ops = Ok (s', obs) ->
+  sinv s' /\ w_changes (s_w s') = w_changes (s_w s) ++ number_from (next_sn (s_w s)) (written ops).
+Proof.
+  induction ops as [|o ops IH]; intros s s' obs Hs Hops H; cbn [run] in H.
+  - inversion H; subst. cbn [written number_from]. rewrite app_nil_r. auto.
+  - inversion Hops; subst.
+    destruct (step s o) as [[s1 b]|e|e] eqn:E; try discriminate. cbn [bind fst snd] in H.
+    destruct (run s1 ops) as [[s2 obs2]|e|e] eqn:E2; try discriminate. cbn [bind fst snd] in H.
+    inversion H; subst.
+    destruct (step_inv s o s1 b Hs H2 E) as [Hs1 Hc1].
+    destruct (IH s1 s' obs2 Hs1 H3 E2) as [Hs2 Hc2]. split; [exact Hs2|].
+    rewrite Hc2, Hc1. unfold next_sn. rewrite Hc1, <- app_assoc. f_equal.
+    destruct o; cbn [written number_from app]; rewrite ?app_nil_r; try reflexivity.
+    rewrite app_length. cbn [length]. do 2 f_equal. lia.
+Qed.
+
+Lemma sinv_init : forall rel nreaders f, frag_size_ok f -> sinv (s_init rel nreaders f).
+Proof.
+  intros rel nreaders f Hf. constructor; cbn; try assumption.
+  - intros sn p H. discriminate.
+  - constructor; cbn; try constructor. intros x [].
+  - exact I.
+Qed.
+
+(* C05, safety half, for ALL histories: whatever the order, duplication, loss, interleaving of
+   samples, heartbeats and ACKNACK / NACK_FRAG rounds, the reader only ever holds byte-identical
+   payloads, each sequence number at most once and in increasing order *)
+Theorem delivered_identical : forall rel nreaders f ops s obs,
+  frag_size_ok f -> Forall op_ok ops -> run (s_init rel nreaders f) ops = Ok (s, obs) ->
+  StronglySorted Z.lt (map fst (r_changes (s_r s))) /\
+  forall sn d, In (sn, d) (r_changes (s_r s)) -> nth_written (written ops) sn = Some d.
+Proof.
+  intros rel nreaders f ops s obs Hf Hops H.
+  destruct (run_inv ops _ s obs (sinv_init rel nreaders f Hf) Hops H) as [[_ _ Hr _] Hc].
+  cbn in Hc. destruct Hr as [_ _ R3 R4]. split; [exact R4|].
+  intros sn d Hin. rewrite Forall_forall in R3. destruct (R3 _ Hin) as [Hl _]. cbn [fst snd] in Hl.
+  rewrite Hc, lookup_number_from in Hl. unfold nth_written. exact Hl.
+Qed.
+
+(* ------------------------------------------------------------ NACK_FRAG: the count is never incremented *)
+
+Lemma r_on_data_nfcount : forall r sn p, r_nfcount (r_on_data r sn p) = r_nfcount r /\ r_rel (r_on_data r sn p) = r_rel r.
+Proof.
+  intros r sn p. unfold r_on_data.
+  destruct (r_rel r) eqn:E.
+  - destruct (sn =? _); cbn [r_set received_change_set r_nfcount r_rel]; auto.
+  - destruct (_ <=? sn); cbn [r_set received_change_set r_nfcount r_rel]; auto.
+Qed.
+
+Lemma r_on_frag_nfcount : forall r fr r', r_on_frag r fr = Ok r' -> r_nfcount r' = r_nfcount r /\ r_rel r' = r_rel r.
+Proof.
+  intros r fr r' H. unfold r_on_frag in H.
+  destruct (reconstruct _ (fr_sn fr)) as [[[d|] b]|e|e]; cbn [bind fst snd] in H; try discriminate; inversion H; subst.
+  - destruct (r_on_data_nfcount (r_set r (r_first r) (r_highest r) b (r_changes r)) (fr_sn fr) d) as [A B].
+    rewrite A, B. cbn [r_set r_nfcount r_rel]. auto.
+  - cbn [r_set r_nfcount r_rel]. auto.
+Qed.
+
+Lemma r_deliver_all_nfcount : forall ws r r', r_deliver_all r ws = Ok r' ->
+  r_nfcount r' = r_nfcount r /\ r_rel r' = r_rel r.
+Proof.
+  induction ws as [|w ws IH]; intros r r' H; cbn [r_deliver_all] in H.
+  - inversion H; auto.
+  - destruct (r_deliver r w) as [r1|e|e] eqn:E; try discriminate. cbn [bind] in H.
+    destruct (IH r1 r' H) as [A B]. rewrite A, B.
+    destruct w as [rid sn p|fr|sn]; cbn [r_deliver] in E.
+    + inversion E; subst. apply r_on_data_nfcount.
+    + apply r_on_frag_nfcount in E. exact E.
+    + inversion E; subst. auto.
+Qed.
+
+Record ninv (s : sys) : Prop := mkninv {
+  ni_count : r_nfcount (s_r s) = 0;
+  ni_last : 0 <= w_last_nf (s_w s);
+  ni_reply : forall a nf, s_reply s = Some (a, Some nf) -> n_count nf = 0
+}.
+
+Lemma w_on_nack_frag_last : forall w count sn base set w' ws,
+  w_on_nack_frag w count sn base set = Ok (w', ws) -> 0 <= w_last_nf w ->
+  0 <= w_last_nf w' /\ (count <= w_last_nf w -> ws = [] /\ w' = w).
+Proof.
+  intros w count sn base set w' ws H Hl. unfold w_on_nack_frag in H.
+  destruct (Z.ltb_spec (w_last_nf w) count) as [E|E].
+  - destruct (w_rel w); cbn [andb] in H.
+    + destruct (lookup sn (w_changes w)); [destruct (w_f w =? 0); [discriminate|]|];
+        inversion H; subst; cbn [set_last_nf w_last_nf]; split; lia.
+    + inversion H; subst. split; [exact Hl|lia].
+  - rewrite andb_false_r in H. inversion H; subst. auto.
+Qed.
+
+Lemma w_on_acknack_last : forall w count base set w' ws,
+  w_on_acknack w count base set = Ok (w', ws) -> w_last_nf w' = w_last_nf w.
+Proof.
+  intros w count base set w' ws H. unfold w_on_acknack in H.
+  destruct (w_rel w && _); [|inversion H; reflexivity].
+  destruct (ack_resp w set); try discriminate. cbn [bind] in H. inversion H; reflexivity.
+Qed.
+
+Lemma respond_ninv : forall s x s' o, ninv s ->
+  (forall w' ws, x = Ok (w', ws) -> 0 <= w_last_nf w') ->
+  respond s x = Ok (s', o) ->
+  ninv s' /\ exists w' ws n, x = Ok (w', ws) /\ o = BResp ws n.
+Proof.
+  intros s x s' o [N1 N2 N3] Hx H. unfold respond in H.
+  destruct x as [[w' ws]|e|e]; try discriminate. cbn [bind fst snd] in H.
+  destruct (r_deliver_all (s_r s) ws) as [r1|e|e] eqn:E; try discriminate. cbn [bind] in H.
+  inversion H; subst. apply r_deliver_all_nfcount in E as [E _]. split.
+  - constructor; cbn [s_w s_r s_reply]; [lia|apply (Hx w' ws eq_refl)|exact N3].
+  - eauto.
+Qed.
+
+(* one step: the invariant holds, the reader's NACK_FRAG is answered with nothing, every NACK_FRAG
+   the reader emits carries count 0 *)
+Lemma step_ninv : forall s o s' b, ninv s -> step s o = Ok (s', b) ->
+  ninv s' /\ (o = ONackFrag -> exists n, b = BResp [] n /\ s_w s' = s_w s) /\
+  (forall a nf, b = BReply (Some (a, Some nf)) -> n_count nf = 0).
+Proof.
+  intros s o s' b Hn H. pose proof Hn as [N1 N2 N3].
+  destruct o as [p|sn idx which| fr |first last count final| |count sn base set| ]; cbn [step] in H.
+  - unfold w_write in H.
+    destruct (send_change 1 _ _ p) as [a|e|e]; try discriminate. cbn [bind] in H.
+    destruct (if 2 <=? _ then _ else _) as [c|e|e]; try discriminate. cbn [bind fst snd] in H.
+    inversion H; subst. split; [|split; [discriminate|discriminate]].
+    constructor; cbn [s_w s_r s_reply set_changes w_last_nf]; assumption.
+  - destruct (datagram_of (s_w s) sn idx which) as [w|].
+    + destruct (r_deliver (s_r s) w) as [r1|e|e] eqn:E; try discriminate. cbn [bind] in H. inversion H; subst.
+      split; [|split; [discriminate|discriminate]].
+      assert (E' : r_deliver_all (s_r s) [w] = Ok r1) by (cbn [r_deliver_all]; rewrite E; reflexivity).
+      apply r_deliver_all_nfcount in E' as [E' _].
+      constructor; cbn [s_w s_r s_reply]; [lia|assumption|assumption].
+    + inversion H; subst. split; [exact Hn|split; [discriminate|discriminate]].
+  - destruct (r_on_frag (s_r s) fr) as [r1|e|e] eqn:E; try discriminate. cbn [bind] in H. inversion H; subst.
+    apply r_on_frag_nfcount in E as [E _].
+    split; [|split; [discriminate|discriminate]].
+    constructor; cbn [s_w s_r s_reply]; [lia|assumption|assumption].
+  - destruct (r_on_heartbeat (s_r s) first last count final) as [[r' x]|e|e] eqn:E; try discriminate.
+    cbn [bind fst snd] in H. inversion H; subst.
+    destruct (r_on_heartbeat_spec _ _ _ _ _ _ _ E) as (_ & _ & _ & E4 & _ & Hnf).
+    split; [|split; [discriminate|]].
+    + constructor; cbn [s_w s_r s_reply]; [lia|assumption|].
+      intros a nf Hx. destruct x as [[a' [nf'|]]|]; try discriminate.
+      * inversion Hx; subst. destruct (Hnf a nf eq_refl) as (_ & _ & Hc). lia.
+      * apply (N3 a nf Hx).
+    + intros a nf Hb. inversion Hb; subst. destruct (Hnf a nf eq_refl) as (_ & _ & Hc). lia.
+  - destruct (s_reply s) as [[a [nf|]]|] eqn:Er.
+    + pose proof (N3 a nf eq_refl) as Hc.
+      destruct (w_on_nack_frag (s_w s) (n_count nf) (n_sn nf) (n_base nf) (n_set nf)) as [[w' ws]|e|e] eqn:E.
+      2,3: unfold respond in H; discriminate.
+      destruct (w_on_nack_frag_last _ _ _ _ _ _ _ E N2) as [Hl Hz]. destruct (Hz ltac:(lia)) as [-> ->].
+      destruct (respond_ninv s (Ok (s_w s, [])) s' b Hn ltac:(intros ? ? Hx; inversion Hx; subst; exact N2) H)
+        as (Hn' & w'' & ws'' & n & Hx & Hb). inversion Hx; subst.
+      split; [exact Hn'|split; [|discriminate]]. intros _. exists n. split; [reflexivity|].
+      unfold respond in H. cbn [bind fst snd r_deliver_all] in H. inversion H; reflexivity.
+    + destruct (respond_ninv s (Ok (s_w s, [])) s' b Hn ltac:(intros ? ? Hx; inversion Hx; subst; exact N2) H)
+        as (Hn' & w'' & ws'' & n & Hx & Hb). inversion Hx; subst.
+      split; [exact Hn'|split; [|discriminate]]. intros _. exists n. split; [reflexivity|].
+      unfold respond in H. cbn [bind fst snd r_deliver_all] in H. inversion H; reflexivity.
+    + destruct (respond_ninv s (Ok (s_w s, [])) s' b Hn ltac:(intros ? ? Hx; inversion Hx; subst; exact N2) H)
+        as (Hn' & w'' & ws'' & n & Hx & Hb). inversion Hx; subst.
+      split; [exact Hn'|split; [|discriminate]]. intros _. exists n. split; [reflexivity|].
+      unfold respond in H. cbn [bind fst snd r_deliver_all] in H. inversion H; reflexivity.
+  - destruct (respond_ninv s (w_on_nack_frag (s_w s) count sn base set) s' b Hn
+               ltac:(intros ? ? Hx; apply w_on_nack_frag_last in Hx; [tauto|exact N2]) H)
+      as (Hn' & w'' & ws'' & n & Hx & Hb). subst b.
+    split; [exact Hn'|split; discriminate].
+  - destruct (s_reply s) as [[a nfo]|] eqn:Er.
+    + destruct (respond_ninv s (w_on_acknack (s_w s) (a_count a) (a_base a) (a_set a)) s' b Hn
+                 ltac:(intros ? ? Hx; apply w_on_acknack_last in Hx; rewrite Hx; exact N2) H)
+        as (Hn' & w'' & ws'' & n & Hx & Hb). subst b.
+      split; [exact Hn'|split; discriminate].
+    + destruct (respond_ninv s (Ok (s_w s, [])) s' b Hn ltac:(intros ? ? Hx; inversion Hx; subst; exact N2) H)
+        as (Hn' & w'' & ws'' & n & Hx & Hb). subst b.
+      split; [exact Hn'|split; discriminate].
+Qed.
+
+Lemma ninv_init : forall rel nreaders f, ninv (s_init rel nreaders f).
+Proof. intros. constructor; cbn; [reflexivity|lia|intros; discriminate]. Qed.
+
+Lemma run_ninv : forall ops s s' obs, ninv s -> run s ops = Ok (s', obs) ->
+  ninv s' /\
+  Forall2 (fun o b => (o = ONackFrag -> exists n, b = BResp [] n) /\
+                      (forall a nf, b = BReply (Some (a, Some nf)) -> n_count nf = 0)) ops obs.
+Proof.
+  induction ops as [|o ops IH]; intros s s' obs Hn H; cbn [run] in H.
+  - inversion H; subst. split; [exact Hn|constructor].
+  - destruct (step s o) as [[s1 b]|e|e] eqn:E; try discriminate. cbn [bind fst snd] in H.
+    destruct (run s1 ops) as [[s2 obs2]|e|e] eqn:E2; try discriminate. cbn [bind fst snd] in H.
+    inversion H; subst.
+    destruct (step_ninv s o s1 b Hn E) as (Hn1 & Ha & Hb).
+    destruct (IH s1 s' obs2 Hn1 E2) as [Hn2 Hall]. split; [exact Hn2|].
+    constructor; [|exact Hall]. split; [|exact Hb].
+    intros Ho. destruct (Ha Ho) as (n & Hn' & _). eauto.
+Qed.
+
+(* D8a on the model, for ALL histories: every NACK_FRAG the reader ever emits carries count 0, and the
+   writer answers every one of them with nothing (its filter is `count > last`, last starts at 0) *)
+Theorem nackfrag_always_filtered : forall rel nreaders f ops s obs,
+  run (s_init rel nreaders f) ops = Ok (s, obs) ->
+  r_nfcount (s_r s) = 0 /\
+  Forall2 (fun o b => (o = ONackFrag -> exists n, b = BResp [] n) /\
+                      (forall a nf, b = BReply (Some (a, Some nf)) -> n_count nf = 0)) ops obs.
+Proof.
+  intros rel nreaders f ops s obs H.
+  destruct (run_ninv ops _ s obs (ninv_init rel nreaders f) H) as [[N1 _ _] Hall]. auto.
+Qed.
+
+(* ------------------------------------------------------------ a lost fragment is never repaired *)
+
+Definition frag_buf1 (r : rstate) (fr : frag) : list frag :=
+  if (if r_rel r then fr_sn fr =? available_changes_max r + 1
+      else available_changes_max r + 1 <=? fr_sn fr)
+  then push_frag (r_buf r) fr else r_buf r.
+
+Lemma r_on_frag_cases : forall f ch r fr q, frag_size_ok f -> history_ok ch ->
+  rinv f ch r -> genuine f 1 ch fr -> lookup (fr_sn fr) ch = Some q ->
+  let buf1 := frag_buf1 r fr in
+    (forall x, In x buf1 -> In x (r_buf r) \/ x = fr) /\ NoDup buf1 /\
+    (forall x, In x buf1 -> genuine f 1 ch x) /\
+    ((complete f 1 buf1 (fr_sn fr) q /\
+      r_on_frag r fr = Ok (r_on_data (r_set r (r_first r) (r_highest r)
+                                       (filter (fun x => negb (has_sn (fr_sn fr) x)) buf1) (r_changes r))
+                                     (fr_sn fr) q))
+     \/ (~ complete f 1 buf1 (fr_sn fr) q /\
+         r_on_frag r fr = Ok (r_set r (r_first r) (r_highest r) buf1 (r_changes r)))).
+Proof.
+  intros f ch r fr q Hf Hch [H1 H2 H3 H4] Hg Hl buf1.
+  unfold r_on_frag. fold (frag_buf1 r fr). fold buf1.
+  assert (Hsub : forall x, In x buf1 -> In x (r_buf r) \/ x = fr).
+  { unfold buf1, frag_buf1. destruct (if r_rel r then _ else _); [|tauto]. intros x Hx. apply push_frag_in in Hx. exact Hx. }
+  assert (Hnd : NoDup buf1).
+  { unfold buf1, frag_buf1. destruct (if r_rel r then _ else _); [apply push_frag_nodup|]; exact H1. }
+  assert (Hgen : forall x, In x buf1 -> genuine f 1 ch x).
+  { intros x Hx. destruct (Hsub x Hx) as [Hx'|Hx']; [apply H2; exact Hx'|subst; exact Hg]. }
+  split; [exact Hsub|]. split; [exact Hnd|]. split; [exact Hgen|].
+  destruct (complete_dec f 1 ch Hf Hch buf1 Hnd Hgen (fr_sn fr) q Hl) as [Hc|Hc].
+  - left. split; [exact Hc|].
+    assert (Hn : 1 <= div_ceil (blen q) f).
+    { destruct Hg as (p' & i & Hl' & Hi & _). assert (p' = q) by congruence. subst. lia. }
+    rewrite (reconstruct_complete f 1 ch Hf Hch buf1 Hnd Hgen (fr_sn fr) q Hl Hc Hn). reflexivity.
+  - right. split; [exact Hc|].
+    rewrite (reconstruct_incomplete f 1 ch Hf Hch buf1 Hnd Hgen (fr_sn fr) q Hl Hc). reflexivity.
+Qed.
+
+Section Lost.
+  Variables (f sn j : Z) (p : bytes).
+  Hypothesis Hf : frag_size_ok f.
+  Hypothesis Hj : 1 <= j < div_ceil (blen p) f.
+
+  Definition nolost (r : rstate) : Prop :=
+    (forall x, In x (r_buf r) -> ~ (fr_sn x = sn /\ fr_start x = j + 1)) /\
+    ~ In sn (map fst (r_changes r)).
+
+  Definition wire_safe (w : wire) : Prop :=
+    match w with
+    | WFrag fr => ~ (fr_sn fr = sn /\ fr_start fr = j + 1)
+    | WData _ sn' _ => sn' <> sn
+    | WGap _ => True
+    end.
+
+  Lemma r_on_data_nolost : forall r sn' q, sn' <> sn -> nolost r -> nolost (r_on_data r sn' q).
+  Proof.
+    intros r sn' q Hne [N1 N2]. unfold r_on_data.
+    assert (Hb : forall s x, In x (filter (fun fr => s <? fr_sn fr) (r_buf r)) ->
+                   ~ (fr_sn x = sn /\ fr_start x = j + 1)).
+    { intros s x Hx. apply filter_In in Hx. apply N1. tauto. }
+    assert (Hc : ~ In sn (map fst (r_changes r ++ [(sn', q)]))).
+    { rewrite map_app, in_app_iff. cbn [map fst In]. intros [H|[H|[]]]; [tauto|congruence]. }
+    destruct (r_rel r).
+    - destruct (sn' =? _); [|split; assumption].
+      split; cbn [r_set received_change_set r_buf r_changes]; [apply Hb|exact Hc].
+    - destruct (_ <=? sn'); [|split; assumption].
+      split; cbn [r_set received_change_set r_buf r_changes]; [apply Hb|exact Hc].
+  Qed.
+
+  Variable ch : list (Z * bytes).
+  Hypothesis Hch : history_ok ch.
+  Hypothesis Hlk : lookup sn ch = Some p.
+
+  Lemma r_deliver_nolost : forall r w r', rinv f ch r -> wire_genuine f ch w -> wire_safe w ->
+    nolost r -> r_deliver r w = Ok r' -> nolost r'.
+  Proof.
+    intros r w r' Hr Hg Hs Hn H. destruct w as [rid sn' q|fr|sn']; cbn [r_deliver wire_genuine wire_safe] in *.
+    - inversion H; subst. apply r_on_data_nolost; assumption.
+    - pose proof Hg as (q & i & Hl & Hi & Hfr).
+      pose proof (r_on_frag_cases f ch r fr q Hf Hch Hr Hg Hl) as (Hsub & Hnd & Hgen & Hcase).
+      set (buf1 := frag_buf1 r fr) in *.
+      assert (Hb1 : forall x, In x buf1 -> ~ (fr_sn x = sn /\ fr_start x = j + 1)).
+      { intros x Hx. destruct (Hsub x Hx) as [Hx'|Hx']; [apply Hn; exact Hx'|subst; exact Hs]. }
+      destruct Hcase as [[Hc E]|[Hc E]]; rewrite E in H; inversion H; subst.
+      + (* complete: then this cannot be sample sn, whose fragment j+1 is not there *)
+        assert (Hne : fr_sn fr <> sn).
+        { intros Heq. rewrite Heq in *. assert (q = p) by congruence. subst q.
+          specialize (Hc j ltac:(lia)). apply Hb1 in Hc. apply Hc.
+          pose proof (gfrag_fields f 1 sn p Hf (Hch _ _ Hlk) j ltac:(lia)) as (_ & A & B & _). auto. }
+        apply r_on_data_nolost; [exact Hne|].
+        split; cbn [r_set r_buf r_changes]; [|apply Hn].
+        intros x Hx. apply filter_In in Hx. apply Hb1. tauto.
+      + split; cbn [r_set r_buf r_changes]; [exact Hb1|apply Hn].
+    - inversion H; subst. exact Hn.
+  Qed.
+
+  Lemma r_deliver_all_nolost : forall ws r r', rinv f ch r ->
+    Forall (wire_genuine f ch) ws -> Forall wire_safe ws ->
+    nolost r -> r_deliver_all r ws = Ok r' -> nolost r'.
+  Proof.
+    induction ws as [|w ws IH]; intros r r' Hr Hg Hs Hn H; cbn [r_deliver_all] in H.
+    - inversion H; subst. exact Hn.
+    - inversion Hg as [|? ? Hg1 Hg2]; subst. inversion Hs as [|? ? Hs1 Hs2]; subst.
+      destruct (r_deliver r w) as [r1|e|e] eqn:E; try discriminate. cbn [bind] in H.
+      destruct (r_deliver_inv f ch r w Hf Hch Hr Hg1) as (r1' & E' & Hr1). rewrite E in E'. inversion E'; subst r1'.
+      apply (IH r1 r' Hr1 Hg2 Hs2); [|exact H].
+      apply (r_deliver_nolost r w r1); assumption.
+  Qed.
+
+  (* which submessages of the writer are safe *)
+  Lemma mk_frag_safe : forall sn' q idx, lookup sn' ch = Some q -> 0 <= idx < div_ceil (blen q) f ->
+    ~ (sn' = sn /\ idx = j) -> wire_safe (WFrag (mk_data_frag 1 sn' q f idx)).
+  Proof.
+    intros sn' q idx Hl Hi Hne. cbn [wire_safe]. intros [A B]. rewrite mk_data_frag_sn in A. subst sn'.
+    pose proof (gfrag_fields f 1 sn q Hf (Hch _ _ Hl) idx Hi) as (_ & _ & C & _). unfold gfrag in C.
+    apply Hne. split; [reflexivity|lia].
+  Qed.
+
+  Lemma data_safe : forall rid sn' q, lookup sn' ch = Some q -> ~ (1 < div_ceil (blen q) f) -> wire_safe (WData rid sn' q).
+  Proof.
+    intros rid sn' q Hl Hn. cbn [wire_safe]. intros ->. assert (q = p) by congruence. subst. lia.
+  Qed.
+End Lost.
+
+Definition lost_op (sn j : Z) (o : op) : Prop :=
+  match o with
+  | ODeliver sn' idx _ => ~ (sn' = sn /\ idx = j)
+  | OForged _ _ _ _ => False
+  | _ => True
+  end.
+
+Lemma respond_inv2 : forall s x s' o, respond s x = Ok (s', o) ->
+  exists w' ws, x = Ok (w', ws) /\ r_deliver_all (s_r s) ws = Ok (s_r s') /\ s_w s' = w'.
+Proof.
+  intros s x s' o H. unfold respond in H. destruct x as [[w' ws]|e|e]; try discriminate.
+  cbn [bind fst snd] in H. destruct (r_deliver_all (s_r s) ws) as [r1|e|e] eqn:E; try discriminate.
+  cbn [bind] in H. inversion H; subst. eauto.
+Qed.
+
+Lemma ack_resp_safe : forall f sn j p w set ws, frag_size_ok f -> 1 <= j < div_ceil (blen p) f ->
+  w_f w = f -> history_ok (w_changes w) -> lookup sn (w_changes w) = Some p ->
+  ack_resp w set = Ok ws -> Forall (wire_safe sn j) ws.
+Proof.
+  intros f sn j p w set. induction set as [|s t IH]; intros ws Hf Hj Hwf Hh Hl H; cbn [ack_resp] in H.
+  - inversion H. constructor.
+  - destruct (ack_resp w t) as [y|e|e] eqn:E.
+    2,3: destruct (lookup s (w_changes w)); [destruct (0 <? s); [destruct (w_f w =? 0)|]|]; discriminate.
+    assert (Hx : exists x, ws = x :: y /\ wire_safe sn j x).
+    { destruct (lookup s (w_changes w)) as [q|] eqn:El.
+      - destruct (0 <? s).
+        + destruct (w_f w =? 0); [discriminate|]. cbn [bind] in H. inversion H; subst.
+          eexists. split; [reflexivity|].
+          destruct (Z.ltb_spec 1 (div_ceil (blen q) (w_f w))).
+          * apply (mk_frag_safe (w_f w) sn j Hf (w_changes w) Hh s q 0 El); lia.
+          * apply (data_safe (w_f w) sn j p Hj (w_changes w) Hl 1 s q El). lia.
+        + cbn [bind] in H. inversion H; subst. eexists. split; [reflexivity|exact I].
+      - cbn [bind] in H. inversion H; subst. eexists. split; [reflexivity|exact I]. }
+    destruct Hx as (x & -> & Hx). constructor; [exact Hx|]. apply IH; auto.
+Qed.
+
+Record linv (sn j : Z) (p : bytes) (s : sys) : Prop := mklinv {
+  li_s : sinv s;
+  li_n : ninv s;
+  li_lk : lookup sn (w_changes (s_w s)) = Some p;
+  li_j : 1 <= j < div_ceil (blen p) (w_f (s_w s));
+  li_nolost : nolost sn j (s_r s)
+}.
+
+Lemma step_linv : forall sn j p s o s' b, linv sn j p s -> op_ok o -> lost_op sn j o ->
+  step s o = Ok (s', b) -> linv sn j p s'.
+Proof.
+  intros sn j p s o s' b [Ls Ln Llk Lj Lno] Hop Hlo H.
+  destruct (step_inv s o s' b Ls Hop H) as [Ls' Hc].
+  destruct (step_ninv s o s' b Ln H) as (Ln' & Hnf & _).
+  pose proof Ls as [Hf Hh Hr Hp].
+  assert (Hwf : w_f (s_w s') = w_f (s_w s)).
+  { destruct o as [q|sn' idx which| fr |first last count final| |count sn' base set| ]; cbn [step] in H.
+    - unfold w_write in H. destruct (send_change 1 _ _ q); try discriminate. cbn [bind] in H.
+      destruct (if 2 <=? _ then _ else _); try discriminate. cbn [bind fst snd] in H. inversion H; reflexivity.
+    - destruct (datagram_of _ _ _ _); [destruct (r_deliver _ _); try discriminate; cbn [bind] in H|]; inversion H; reflexivity.
+    - destruct (r_on_frag _ _); try discriminate. cbn [bind] in H. inversion H; reflexivity.
+    - destruct (r_on_heartbeat _ _ _ _ _) as [[? ?]|?|?]; try discriminate. cbn [bind fst snd] in H. inversion H; reflexivity.
+    - destruct (Hnf eq_refl) as (n & _ & E). rewrite E. reflexivity.
+    - destruct Hlo.
+    - destruct (s_reply s) as [[a nfo]|].
+      + apply respond_inv2 in H as (w' & ws & Hx & _ & E). rewrite E.
+        apply w_on_acknack_spec in Hx; [tauto|exact Hf].
+      + apply respond_inv2 in H as (w' & ws & Hx & _ & E). injection Hx as A B. congruence. }
+  assert (Llk' : lookup sn (w_changes (s_w s')) = Some p) by (rewrite Hc, lookup_app, Llk; reflexivity).
+  constructor; try assumption; [rewrite Hwf; exact Lj|].
+  destruct o as [q|sn' idx which| fr |first last count final| |count sn' base set| ]; cbn [step op_ok lost_op] in *.
+  - (* write: reader untouched *)
+    unfold w_write in H. destruct (send_change 1 _ _ q); try discriminate. cbn [bind] in H.
+    destruct (if 2 <=? _ then _ else _); try discriminate. cbn [bind fst snd] in H. inversion H; subst. exact Lno.
+  - subst which. destruct (datagram_of (s_w s) sn' idx 1) as [w|] eqn:E.
+    + destruct (r_deliver (s_r s) w) as [r1|e|e] eqn:E1; try discriminate. cbn [bind] in H. inversion H; subst.
+      cbn [s_r]. apply (r_deliver_nolost (w_f (s_w s)) sn j p Hf Lj (w_changes (s_w s)) Hh Llk (s_r s) w r1 Hr);
+        [apply (datagram_of_spec _ _ _ _ E)| |exact Lno|exact E1].
+      unfold datagram_of in E. destruct ((1 <=? 1) && _); [|discriminate].
+      destruct (lookup sn' (w_changes (s_w s))) as [q|] eqn:El; [|discriminate].
+      destruct (w_f (s_w s) =? 0); [discriminate|].
+      destruct (Z.ltb_spec 1 (div_ceil (blen q) (w_f (s_w s)))).
+      * destruct (Z.leb_spec 0 idx); destruct (Z.ltb_spec idx (div_ceil (blen q) (w_f (s_w s))));
+          cbn [andb] in E; try discriminate. inversion E; subst.
+        apply (mk_frag_safe (w_f (s_w s)) sn j Hf (w_changes (s_w s)) Hh sn' q idx El); [lia|exact Hlo].
+      * destruct (idx =? 0); [|discriminate]. inversion E; subst.
+        apply (data_safe (w_f (s_w s)) sn j p Lj (w_changes (s_w s)) Llk 1 sn' q El). lia.
+    + inversion H; subst. exact Lno.
+  - destruct Hop.
+  - destruct (r_on_heartbeat (s_r s) first last count final) as [[r' x]|e|e] eqn:E; try discriminate.
+    cbn [bind fst snd] in H. inversion H; subst. cbn [s_r].
+    destruct (r_on_heartbeat_spec _ _ _ _ _ _ _ E) as (E1 & E2 & _).
+    destruct Lno as [A B]. split; rewrite ?E1, ?E2; assumption.
+  - (* the reader's NACK_FRAG: answered with nothing *)
+    destruct (Hnf eq_refl) as (n & Hb & _). subst b.
+    destruct (s_reply s) as [[a [nf|]]|] eqn:Er.
+    + apply respond_inv2 in H as (w' & ws & Hx & Hd & _).
+      assert (Hws : ws = []).
+      { destruct Ln as [_ N2 N3]. apply w_on_nack_frag_last in Hx as [_ Hz]; [|exact N2].
+        apply Hz. rewrite (N3 a nf Er). exact N2. }
+      subst ws. cbn [r_deliver_all] in Hd. injection Hd as Hd. rewrite <- Hd. exact Lno.
+    + apply respond_inv2 in H as (w' & ws & Hx & Hd & _). injection Hx as A B. subst ws.
+      cbn [r_deliver_all] in Hd. injection Hd as Hd. rewrite <- Hd. exact Lno.
+    + apply respond_inv2 in H as (w' & ws & Hx & Hd & _). injection Hx as A B. subst ws.
+      cbn [r_deliver_all] in Hd. injection Hd as Hd. rewrite <- Hd. exact Lno.
+  - destruct Hlo.
+  - destruct (s_reply s) as [[a nfo]|].
+    + apply respond_inv2 in H as (w' & ws & Hx & Hd & _).
+      pose proof Hx as Hx2. apply w_on_acknack_spec in Hx2 as (_ & _ & Hg); [|exact Hf].
+      unfold w_on_acknack in Hx. destruct (w_rel (s_w s) && _).
+      * destruct (ack_resp (s_w s) (a_set a)) as [y|e|e] eqn:Ea; try discriminate. cbn [bind] in Hx.
+        inversion Hx; subst.
+        apply (r_deliver_all_nolost (w_f (s_w s)) sn j p Hf Lj (w_changes (s_w s)) Hh Llk ws (s_r s) (s_r s') Hr Hg);
+          [|exact Lno|exact Hd].
+        apply (ack_resp_safe (w_f (s_w s)) sn j p (s_w s) (a_set a) ws Hf Lj eq_refl Hh Llk Ea).
+      * injection Hx as A B. subst ws. cbn [r_deliver_all] in Hd. injection Hd as Hd. rewrite <- Hd. exact Lno.
+    + apply respond_inv2 in H as (w' & ws & Hx & Hd & _). injection Hx as A B. subst ws.
+      cbn [r_deliver_all] in Hd. injection Hd as Hd. rewrite <- Hd. exact Lno.
+Qed.
+
+Lemma run_linv : forall sn j p ops s s' obs, linv sn j p s -> Forall op_ok ops -> Forall (lost_op sn j) ops ->
+  run s ops = Ok (s', obs) -> linv sn j p s'.
+Proof.
+  intros sn j p. induction ops as [|o ops IH]; intros s s' obs Hl Hok Hlo H; cbn [run] in H.
+  - inversion H; subst. exact Hl.
+  - inversion Hok as [|? ? Ho1 Ho2]; subst. inversion Hlo as [|? ? Hl1 Hl2]; subst.
+    destruct (step s o) as [[s1 b]|e|e] eqn:E; try discriminate. cbn [bind fst snd] in H.
+    destruct (run s1 ops) as [[s2 obs2]|e|e] eqn:E2; try discriminate. cbn [bind fst snd] in H.
+    inversion H; subst. apply (IH s1 s' obs2); try assumption.
+    apply (step_linv sn j p s o s1 b); assumption.
+Qed.
+
+Lemma run_app : forall a b s, run s (a ++ b) =
+  (x <- run s a ;; y <- run (fst x) b ;; Ok (fst y, snd x ++ snd y)).
+Proof.
+  induction a as [|o a IH]; intros b s; cbn [app run bind fst snd].
+  - destruct (run s b) as [[s' obs]|e|e]; reflexivity.
+  - destruct (step s o) as [[s1 ob]|e|e]; cbn [bind fst snd]; try reflexivity.
+    rewrite IH. destruct (run s1 a) as [[s2 o2]|e|e]; cbn [bind fst snd]; try reflexivity.
+    destruct (run s2 b) as [[s3 o3]|e|e]; cbn [bind fst snd]; reflexivity.
+Qed.
+
+Lemma written_writes : forall ps, written (map OWrite ps) = ps.
+Proof. induction ps as [|p ps IH]; cbn [map written]; [reflexivity|]. rewrite IH. reflexivity. Qed.
+
+Lemma run_writes_reader : forall ps s s' obs, run s (map OWrite ps) = Ok (s', obs) ->
+  s_r s' = s_r s /\ s_reply s' = s_reply s /\ w_last_nf (s_w s') = w_last_nf (s_w s).
+Proof.
+  induction ps as [|p ps IH]; intros s s' obs H; cbn [map run] in H.
+  - inversion H; auto.
+  - destruct (step s (OWrite p)) as [[s1 b]|e|e] eqn:E; try discriminate. cbn [bind fst snd] in H.
+    destruct (run s1 (map OWrite ps)) as [[s2 obs2]|e|e] eqn:E2; try discriminate. cbn [bind fst snd] in H.
+    inversion H; subst. destruct (IH s1 s' obs2 E2) as (A & B & C). rewrite A, B, C.
+    cbn [step] in E. unfold w_write in E.
+    destruct (send_change 1 _ _ p); try discriminate. cbn [bind] in E.
+    destruct (if 2 <=? _ then _ else _); try discriminate. cbn [bind fst snd] in E. inversion E; subst. auto.
+Qed.
+
+Lemma w_on_nack_frag_wf : forall w count sn base set w' ws,
+  w_on_nack_frag w count sn base set = Ok (w', ws) -> w_f w' = w_f w.
+Proof. intros. apply w_on_nack_frag_spec in H. tauto. Qed.
+
+Lemma step_wf : forall s o s' b, step s o = Ok (s', b) -> w_f (s_w s') = w_f (s_w s).
+Proof.
+  intros s o s' b H.
+  destruct o as [q|sn' idx which| fr |first last count final| |count sn' base set| ]; cbn [step] in H.
+  - unfold w_write in H. destruct (send_change 1 _ _ q); try discriminate. cbn [bind] in H.
+    destruct (if 2 <=? _ then _ else _); try discriminate. cbn [bind fst snd] in H. inversion H; reflexivity.
+  - destruct (datagram_of _ _ _ _); [destruct (r_deliver _ _); try discriminate; cbn [bind] in H|]; inversion H; reflexivity.
+  - destruct (r_on_frag _ _); try discriminate. cbn [bind] in H. inversion H; reflexivity.
+  - destruct (r_on_heartbeat _ _ _ _ _) as [[? ?]|?|?]; try discriminate. cbn [bind fst snd] in H. inversion H; reflexivity.
+  - destruct (s_reply s) as [[a [nf|]]|]; apply respond_inv2 in H as (w' & ws & Hx & _ & E); rewrite E.
+    + apply w_on_nack_frag_wf in Hx. exact Hx.
+    + injection Hx as A B. rewrite <- A. reflexivity.
+    + injection Hx as A B. rewrite <- A. reflexivity.
+  - apply respond_inv2 in H as (w' & ws & Hx & _ & E). rewrite E. apply w_on_nack_frag_wf in Hx. exact Hx.
+  - destruct (s_reply s) as [[a nfo]|]; apply respond_inv2 in H as (w' & ws & Hx & _ & E); rewrite E.
+    + unfold w_on_acknack in Hx. destruct (w_rel (s_w s) && _).
+      * destruct (ack_resp _ _); try discriminate. cbn [bind] in Hx. injection Hx as A B. rewrite <- A. reflexivity.
+      * injection Hx as A B. rewrite <- A. reflexivity.
+    + injection Hx as A B. rewrite <- A. reflexivity.
+Qed.
+
+Lemma run_wf : forall ops s s' obs, run s ops = Ok (s', obs) -> w_f (s_w s') = w_f (s_w s).
+Proof.
+  induction ops as [|o ops IH]; intros s s' obs H; cbn [run] in H.
+  - inversion H; reflexivity.
+  - destruct (step s o) as [[s1 b]|e|e] eqn:E; try discriminate. cbn [bind fst snd] in H.
+    destruct (run s1 ops) as [[s2 obs2]|e|e] eqn:E2; try discriminate. cbn [bind fst snd] in H.
+    inversion H; subst. rewrite (IH s1 s' obs2 E2). apply (step_wf s o s1 b E).
+Qed.
+
+(* D8 on the model, for ALL continuations: if fragment j >= 1 (0-based; i.e. any but the first) of
+   sample sn is lost in the first transmission, then whatever the environment does afterwards —
+   deliver any other datagram in any order, heartbeats, the reader's ACKNACKs and NACK_FRAGs fed to
+   the writer and the writer's answers delivered to the reader, further writes — the reader never
+   obtains sample sn.  (Refutes the `lost (reliable)` clause of C05.) *)
+Theorem lost_fragment_never_repaired : forall rel nreaders f ps ops sn j p s obs,
+  frag_size_ok f -> Forall (fun q => blen q < two32) ps ->
+  nth_written ps sn = Some p -> 1 <= j < div_ceil (blen p) f ->
+  Forall op_ok ops -> Forall (lost_op sn j) ops ->
+  run (s_init rel nreaders f) (map OWrite ps ++ ops) = Ok (s, obs) ->
+  ~ In sn (map fst (r_changes (s_r s))).
+Proof.
+  intros rel nreaders f ps ops sn j p s obs Hf Hps Hnth Hj Hok Hlo H.
+  rewrite run_app in H.
+  destruct (run (s_init rel nreaders f) (map OWrite ps)) as [[s1 o1]|e|e] eqn:E1; try discriminate.
+  cbn [bind fst snd] in H.
+  destruct (run s1 ops) as [[s2 o2]|e|e] eqn:E2; try discriminate. cbn [bind fst snd] in H.
+  inversion H; subst.
+  assert (Hokw : Forall op_ok (map OWrite ps)).
+  { apply Forall_forall. intros o Ho. apply in_map_iff in Ho as (q & <- & Hq). cbn [op_ok].
+    rewrite Forall_forall in Hps. apply Hps. exact Hq. }
+  destruct (run_inv _ _ s1 o1 (sinv_init rel nreaders f Hf) Hokw E1) as [Hs1 Hc1].
+  destruct (run_ninv _ _ s1 o1 (ninv_init rel nreaders f) E1) as [Hn1 _].
+  destruct (run_writes_reader ps _ s1 o1 E1) as (Hr1 & _ & _).
+  pose proof (run_wf _ _ _ _ E1) as Hwf. cbn in Hwf.
+  cbn in Hc1. rewrite written_writes in Hc1.
+  assert (Hl1 : linv sn j p s1).
+  { constructor; try assumption.
+    - rewrite Hc1, lookup_number_from. unfold nth_written in Hnth. exact Hnth.
+    - rewrite Hwf. exact Hj.
+    - rewrite Hr1. split; cbn; [intros x []|intros []]. }
+  destruct (run_linv sn j p ops s1 s o2 Hl1 Hok Hlo E2) as [_ _ _ _ [_ Hno]]. exact Hno.
+Qed.
+
+(* ------------------------------------------------------------ NACK_FRAG numbering *)
+
+(* what the writer answers to a NACK_FRAG that passes the duplicate filter: the fragments whose
+   0-based INDEX is the requested (1-based) number, i.e. wire numbers n + 1; base is answered twice
+   when it is also a member of the set *)
+Theorem nackfrag_resends_successor : forall w count sn base set p,
+  frag_size_ok (w_f w) -> payload_ok p -> w_rel w = true -> w_last_nf w < count ->
+  lookup sn (w_changes w) = Some p ->
+  0 <= base -> Forall (fun k => 0 <= k) set ->
+  exists w' ws, w_on_nack_frag w count sn base set = Ok (w', ws) /\
+    ws = map (fun k => WFrag (mk_data_frag 1 sn p (w_f w) k))
+             (filter (fun k => k <? div_ceil (blen p) (w_f w)) (base :: set)) /\
+    forall fr, In (WFrag fr) ws ->
+      exists k, In k (base :: set) /\ k < div_ceil (blen p) (w_f w) /\ fr_start fr = k + 1.
+Proof.
+  intros w count sn base set p Hf Hp Hrel Hc Hl Hb Hs.
+  unfold w_on_nack_frag. rewrite Hrel. replace (w_last_nf w <? count) with true by (symmetry; apply Z.ltb_lt; exact Hc).
+  cbn [andb]. rewrite Hl. destruct (Z.eqb_spec (w_f w) 0) as [E|E]; [destruct Hf; lia|].
+  eexists. eexists. split; [reflexivity|]. split; [reflexivity|].
+  intros fr Hin. remember (base :: set) as L eqn:EL.
+  apply in_map_iff in Hin as (k & Hk & Hin). apply filter_In in Hin as [Hin Hlt]. apply Z.ltb_lt in Hlt.
+  exists k. split; [exact Hin|]. split; [exact Hlt|].
+  assert (0 <= k).
+  { subst L. destruct Hin as [<-|Hin]; [exact Hb|]. rewrite Forall_forall in Hs. apply Hs. exact Hin. }
+  inversion Hk; subst fr.
+  pose proof (gfrag_fields (w_f w) 1 sn p Hf Hp k ltac:(lia)) as (_ & _ & A & _). exact A.
+Qed.
+
+(* corollary: a request for exactly fragment n (1 <= n <= total) is never answered with fragment n *)
+Theorem nackfrag_never_resends_requested : forall w count sn n p,
+  frag_size_ok (w_f w) -> payload_ok p -> w_rel w = true -> w_last_nf w < count ->
+  lookup sn (w_changes w) = Some p -> 1 <= n <= div_ceil (blen p) (w_f w) ->
+  exists w' ws, w_on_nack_frag w count sn n [n] = Ok (w', ws) /\
+    (forall fr, In (WFrag fr) ws -> fr_start fr = n + 1) /\
+    (n = div_ceil (blen p) (w_f w) -> ws = []).
+Proof.
+  intros w count sn n p Hf Hp Hrel Hc Hl Hn.
+  destruct (nackfrag_resends_successor w count sn n [n] p Hf Hp Hrel Hc Hl ltac:(lia)
+              ltac:(constructor; [lia|constructor])) as (w' & ws & E & Hws & Hall).
+  exists w', ws. split; [exact E|]. split.
+  - intros fr Hin. destruct (Hall fr Hin) as (k & Hk & _ & Hst).
+    assert (k = n) by (destruct Hk as [<-|[<-|[]]]; reflexivity). lia.
+  - intros ->. rewrite Hws. cbn [filter]. rewrite Z.ltb_irrefl. reflexivity.
+Qed.
+
+(* ------------------------------------------------------------ complete set => delivered (RELIABLE reader) *)
+
+Lemma r_on_data_changes : forall r s q, incl (r_changes r) (r_changes (r_on_data r s q)).
+Proof.
+  intros r s q c Hc. unfold r_on_data.
+  destruct (r_rel r); [destruct (s =? _)|destruct (_ <=? s)];
+    cbn [r_set received_change_set r_changes]; try exact Hc; apply in_app_iff; left; exact Hc.
+Qed.
+
+Lemma r_deliver_mono : forall r w r', r_deliver r w = Ok r' ->
+  r_rel r' = r_rel r /\ incl (r_changes r) (r_changes r').
+Proof.
+  intros r w r' E. destruct w as [rid s q|fr|s]; cbn [r_deliver] in E.
+  - inversion E; subst. split; [apply (proj2 (r_on_data_nfcount r s q))|apply r_on_data_changes].
+  - pose proof (r_on_frag_nfcount r fr r' E) as [_ B]. split; [exact B|].
+    unfold r_on_frag in E. destruct (reconstruct _ _) as [[[d|] b]|e|e]; cbn [bind fst snd] in E; try discriminate;
+      inversion E; subst.
+    + intros c Hc. apply r_on_data_changes. cbn [r_set r_changes]. exact Hc.
+    + cbn [r_set r_changes]. apply incl_refl.
+  - inversion E; subst. split; [reflexivity|apply incl_refl].
+Qed.
+
+Lemma r_on_data_rel_expected : forall r sn p, r_rel r = true -> sn = available_changes_max r + 1 ->
+  r_changes (r_on_data r sn p) = r_changes r ++ [(sn, p)].
+Proof.
+  intros r sn p Hrel Hs. unfold r_on_data. rewrite Hrel. rewrite <- Hs, Z.eqb_refl. reflexivity.
+Qed.
+
+Lemma r_on_data_rel_other : forall r sn p, r_rel r = true -> sn <> available_changes_max r + 1 ->
+  r_on_data r sn p = r.
+Proof.
+  intros r sn p Hrel Hs. unfold r_on_data. rewrite Hrel.
+  destruct (Z.eqb_spec sn (available_changes_max r + 1)); [contradiction|reflexivity].
+Qed.
+
+Section Complete.
+  Variables (f : Z) (ch : list (Z * bytes)) (sn : Z) (p : bytes).
+  Hypothesis Hf : frag_size_ok f.
+  Hypothesis Hch : history_ok ch.
+  Hypothesis Hlk : lookup sn ch = Some p.
+
+  Definition covered (buf : list frag) (ws : list wire) : Prop :=
+    forall i, 0 <= i < div_ceil (blen p) f ->
+      In (mk_data_frag 1 sn p f i) buf \/ In (WFrag (mk_data_frag 1 sn p f i)) ws.
+
+  (* either the sample has been delivered, or the reader still expects it, holds an incomplete set,
+     and every fragment is either buffered or still to come *)
+  Definition waiting (r : rstate) (ws : list wire) : Prop :=
+    rinv f ch r /\ r_rel r = true /\
+    (In (sn, p) (r_changes r) \/
+     (available_changes_max r + 1 = sn /\ ~ complete f 1 (r_buf r) sn p /\ covered (r_buf r) ws)).
+
+  Lemma deliver_step : forall r w ws, waiting r (w :: ws) -> wire_genuine f ch w ->
+    exists r', r_deliver r w = Ok r' /\ waiting r' ws.
+  Proof.
+    intros r w ws (Hr & Hrel & Hst) Hg.
+    destruct (r_deliver_inv f ch r w Hf Hch Hr Hg) as (r' & E & Hr'). exists r'. split; [exact E|].
+    destruct (r_deliver_mono r w r' E) as [Hrel' Hmono].
+    split; [exact Hr'|]. split; [congruence|].
+    destruct Hst as [Hdel|(Hexp & Hinc & Hcov)]; [left; apply Hmono; exact Hdel|].
+    destruct w as [rid s q|fr|s]; cbn [r_deliver wire_genuine] in *.
+    - (* DATA *)
+      inversion E; subst r'. unfold r_on_data. rewrite Hrel.
+      destruct (Z.eqb_spec s (available_changes_max r + 1)) as [Es|Es].
+      + left. assert (Hs : s = sn) by lia. assert (q = p) by (rewrite Hs in Hg; congruence).
+        cbn [r_set received_change_set r_changes]. apply in_app_iff. right. left. f_equal; assumption.
+      + right. split; [exact Hexp|]. split; [exact Hinc|].
+        intros i Hi. destruct (Hcov i Hi) as [H|[H|H]]; [left; exact H|discriminate|right; exact H].
+    - (* DATA_FRAG *)
+      pose proof Hg as (q & i0 & Hl & Hi0 & Hfr).
+      pose proof (r_on_frag_cases f ch r fr q Hf Hch Hr Hg Hl) as (Hsub & Hnd & Hgen & Hcase).
+      assert (Hb1 : frag_buf1 r fr = if fr_sn fr =? sn then push_frag (r_buf r) fr else r_buf r).
+      { unfold frag_buf1. rewrite Hrel, Hexp. reflexivity. }
+      set (buf1 := frag_buf1 r fr) in *.
+      destruct (Z.eqb_spec (fr_sn fr) sn) as [Es|Es].
+      + (* a fragment of the awaited sample: buffered *)
+        rewrite Es in *. assert (q = p) by congruence. subst q.
+        destruct Hcase as [[Hc Ec]|[Hc Ec]]; rewrite Ec in E; inversion E; subst r'.
+        * left. rewrite r_on_data_rel_expected; [|exact Hrel|symmetry; exact Hexp].
+          apply in_app_iff. right. left. reflexivity.
+        * right. cbn [r_set r_buf r_first r_highest available_changes_max].
+          split; [exact Hexp|]. split; [exact Hc|].
+          intros i Hi. rewrite Hb1. destruct (Hcov i Hi) as [H|[H|H]].
+          -- left. apply push_frag_in. left. exact H.
+          -- left. apply push_frag_in. right. inversion H. reflexivity.
+          -- right. exact H.
+      + (* a fragment of another sample: not buffered; at most some other sample's stale set is dropped *)
+        assert (Hkeep : forall x, In x (r_buf r) -> fr_sn x = sn ->
+                   In x (filter (fun y => negb (has_sn (fr_sn fr) y)) buf1)).
+        { intros x Hx Hs. apply filter_In. split; [rewrite Hb1; exact Hx|].
+          unfold has_sn. rewrite Hs. destruct (Z.eqb_spec sn (fr_sn fr)); [congruence|reflexivity]. }
+        destruct Hcase as [[Hc Ec]|[Hc Ec]]; rewrite Ec in E; inversion E; subst r'.
+        * right. rewrite r_on_data_rel_other; [|exact Hrel|change (fr_sn fr <> available_changes_max r + 1); lia].
+          cbn [r_set r_buf r_first r_highest available_changes_max].
+          split; [exact Hexp|]. split.
+          -- intros Hc'. apply Hinc. intros i Hi. specialize (Hc' i Hi). apply filter_In in Hc' as [Hc' _].
+             rewrite Hb1 in Hc'. exact Hc'.
+          -- intros i Hi. destruct (Hcov i Hi) as [H|[H|H]].
+             ++ left. apply Hkeep; [exact H|apply mk_data_frag_sn].
+             ++ exfalso. inversion H. apply Es. rewrite <- H1. apply mk_data_frag_sn.
+             ++ right. exact H.
+        * right. cbn [r_set r_buf r_first r_highest available_changes_max]. rewrite Hb1.
+          split; [exact Hexp|]. split; [exact Hinc|].
+          intros i Hi. destruct (Hcov i Hi) as [H|[H|H]].
+          -- left. exact H.
+          -- exfalso. inversion H. apply Es. rewrite <- H1. apply mk_data_frag_sn.
+          -- right. exact H.
+    - inversion E; subst r'. right. split; [exact Hexp|]. split; [exact Hinc|].
+      intros i Hi. destruct (Hcov i Hi) as [H|[H|H]]; [left; exact H|discriminate|right; exact H].
+  Qed.
+
+  Lemma deliver_all_waiting : forall ws r, waiting r ws -> Forall (wire_genuine f ch) ws ->
+    exists r', r_deliver_all r ws = Ok r' /\ waiting r' [].
+  Proof.
+    induction ws as [|w ws IH]; intros r Hw Hg; cbn [r_deliver_all].
+    - exists r. split; [reflexivity|exact Hw].
+    - inversion Hg as [|? ? Hg1 Hg2]; subst.
+      destruct (deliver_step r w ws Hw Hg1) as (r1 & E & Hw1). rewrite E. cbn [bind].
+      apply IH; assumption.
+  Qed.
+
+  (* RELIABLE reader that expects sample sn (and holds an incomplete or empty set of its fragments):
+     once every fragment has arrived — in ANY order, with ANY duplication, interleaved with ANY other
+     genuine traffic of the writer — the reader holds (sn, p) *)
+  Theorem complete_set_is_delivered : forall r ws,
+    rinv f ch r -> r_rel r = true -> available_changes_max r + 1 = sn ->
+    ~ complete f 1 (r_buf r) sn p ->
+    Forall (wire_genuine f ch) ws ->
+    (forall i, 0 <= i < div_ceil (blen p) f -> In (WFrag (mk_data_frag 1 sn p f i)) ws) ->
+    exists r', r_deliver_all r ws = Ok r' /\ In (sn, p) (r_changes r').
+  Proof.
+    intros r ws Hr Hrel Hexp Hinc Hg Hall.
+    assert (Hw : waiting r ws).
+    { split; [exact Hr|]. split; [exact Hrel|]. right. split; [exact Hexp|]. split; [exact Hinc|].
+      intros i Hi. right. apply Hall. exact Hi. }
+    destruct (deliver_all_waiting ws r Hw Hg) as (r' & E & (_ & _ & Hst)). exists r'. split; [exact E|].
+    destruct Hst as [Hdel|(_ & Hinc' & Hcov)]; [exact Hdel|].
+    exfalso. apply Hinc'. intros i Hi. destruct (Hcov i Hi) as [H|[]]. exact H.
+  Qed.
+End Complete.
